@@ -5,7 +5,10 @@ completed, failed at an injected I/O error, or killed between two file operation
 directory found before the observed run is parsed and handed to the extracted model (Model/Fs.v), whose
 prediction of the result files and of the final listing is compared with what the real run produced.
 Separately the model's operation list itself is validated: against the sequence of mutating file
-operations of the real run, and, for every kill point k, against the directory a killed run leaves."""
+operations of the real run, and, for every kill point k, against the directory a killed run leaves.
+Runs outside the model (results to SQLite, collections of different formats, two protein collections, the whole
+command line with --save_models, the stand-alone rollup tool) are checked with the property alone: the same run in a
+clean directory gives the same result files, nothing else appears, nothing else changes (see RULE, reviews/C09.md)."""
 import builtins
 import itertools
 import os
@@ -21,25 +24,54 @@ from .. import lib, brewlib
 from ..lib import Toks, call_impl
 
 PROP = "C09"
-RULE = ("case kinds: dirty = 1-3 earlier runs (other tables, chunk sizes, prefixes, formats; each completed, failed at an injected "
-        "I/O error at operation k, or killed before operation k) + synthetic leftovers (stale chunk / level / result files, garbage) "
-        "followed by the observed assign_confidence run, compared with the model's prediction from the parsed dirty directory "
-        "(result rows with q-values, final listing, operation trace) and with the same run in a clean directory; crash = one run "
-        "killed before operation k for every k, directory compared with the model's exec_crash k; verify = the CLI's PIN verify step "
-        "with / without a pre-existing <pin>.tsv (PINs of 1-6 PSMs, and PINs without PSMs: header only / header + DefaultDirection "
-        "line); strace = system-call trace of a real subprocess run against the Python-level tap. "
-        "distinct = distinct case; non-trivial = the dirty directory holds a file whose name the observed run also uses or globs")
+RULE = ("case kinds: dirty = 0-4 earlier runs (other tables, chunk sizes, prefixes, formats; or the observed run's own specification "
+        "repeated with the same / another chunk size / other options; each completed, failed at an injected I/O error at operation k, "
+        "or killed before operation k, with 1 or 3 workers) + synthetic leftovers (stale chunk / level / result files under the run's "
+        "own names and at the index just past its last chunk, garbage, empty files, near misses of every name pattern "
+        "(.bak / ~ / .tmp / leading zero / other case / no suffix / extra leading character), the same names under another file_root "
+        "or another suffix, protein-level names, a sub-directory of such files) followed by the observed assign_confidence run, compared "
+        "with the model's prediction from the parsed dirty directory (result rows with q-values, final listing, operation trace) and "
+        "with the same run in a clean directory (result files byte for byte; no new file but result files; none of the run's "
+        "chunk / level names left; every other file below dest_dir and the input files byte-identical). The observed and the earlier "
+        "runs vary file_root ('' / 'r.' / 'exp.1.' / 'coll0.'), the input suffix (.pin / .tab / .csv / .parquet: it names chunk and "
+        "level files), prefixes (collN and dotted / level-like ones), descs, append_to_output_file (result files prepared by the caller: "
+        "dirty result = prepared bytes + clean bytes; outside the theorems' guard run_okp, compared with the executable model only), "
+        "dest_dir absolute / relative to the working directory / '.', input files inside dest_dir, 1 or 3 workers; a sweep over every "
+        "layout of 2 (all 9) and 3 (sample) collection prefixes, half of it under a file_root / other suffix / append. Protein level: "
+        "one collection with decoys is modelled (also with prefix, file_root, .tab, relative dest_dir); two collections or "
+        "decoys=False, results to SQLite (sqlite_path; database compared between dirty and clean run, no result file may stay), and "
+        "collections of different formats in one call are checked with the property alone (model result 'not-modelled'). "
+        "cli = mokapot.mokapot.main end to end (verify step, read_pin, brew, assign_confidence, --save_models; 1-3 PIN files some "
+        "ragged with a leftover <pin>.tsv, --file_root, --aggregate, --keep_decoys, --skip_rollup, --max_workers, --dest_dir absolute / "
+        "relative / default '.', PINs inside dest_dir or given relative) in a directory left by 0-2 earlier command lines (other or the "
+        "same PIN names and options; completed / failed / killed) + leftovers under the names of its result files, model pickles, "
+        "chunk and level files: property alone (result files and saved models as in a clean directory, models compared without "
+        "scikit-learn's wall-clock timings; PINs as in the clean run; nothing else new, nothing else changed). "
+        "rollup = mokapot.brew_rollup.main on the result files of a real run, destination (= or != source) holding temp.<level>s / "
+        "result files of earlier rollups (completed / failed / killed), garbage and near misses: property alone; its temp files "
+        "staying behind is the known finding brew_rollup:temp-files-remain. "
+        "crash = one run killed before operation k for every k, directory compared with the model's exec_crash k; verify = the CLI's "
+        "PIN verify step with / without a pre-existing <pin>.tsv (PINs of 1-6 PSMs, PINs without PSMs, and 2-3 PINs in one call with "
+        "leftovers next to some, names with dots / blanks, paths relative to the working directory); strace = system-call trace of a "
+        "real subprocess run against the Python-level tap, hard kill with os._exit. "
+        "distinct = distinct case; non-trivial (decided when the case is run, tags overlap / no-overlap) = the directory found by the "
+        "observed run holds a file under one of the names the run writes, removes or could glob (verify: a leftover <pin>.tsv)")
 ASSUMPTIONS = [
-    "file operations are atomic at the granularity of one create / append / unlink / rename call (torn appends are covered by the theorem's quantification over all directories, not by the correspondence runs)",
+    "file operations are atomic at the granularity of one create / append / unlink / rename call (torn appends are covered by the theorem's quantification over all directories, not by the correspondence runs; a Parquet level file whose writer was open at a hard kill is compared by existence only)",
     "the tap sees every mutating file operation of mokapot (cross-checked against strace on real subprocess runs when ptrace is permitted)",
     "PEP estimation is replaced by a constant during these runs (oracle of C06)",
-    "the input files live outside the destination directory",
+    "the input files live outside the destination directory or have names that are none of the run's own (in<k><suffix>, <stem>.pin with a stem that is not a level name): an input called psms.pin inside dest_dir is overwritten by the level file of that name — not a matter of leftovers, see reviews/C09.md",
+    "leftovers are regular files (no directories, symbolic links or unwritable files under the run's own names); the checks run as root, so permissions are not exercised",
+    "append_to_output_file=True: the result files the caller prepared are inputs of the run, not leftovers",
 ]
 TRUSTED_EXTRA = ["POSIX semantics of open(O_TRUNC) / open(O_APPEND) / unlink / rename (oracle)",
                  "pandas / pyarrow readers and writers of intermediate and result files (oracle)"]
 
 LEVEL_COLS = ["ModifiedPeptide", "Precursor", "PeptideGroup"]
 SPEC_COLS = ("filename", "ScanNr", "ret_time", "ExpMass")
+TEXT_EXTS = (".pin", ".tab", ".csv")          # suffixes mokapot reads and writes as tab-separated text
+ROOTS = ["", "", "", "r.", "exp.1.", "coll0."]  # file_root values (the CLI passes "<--file_root>.")
+EXTRA_PFX = ["a.b", "b", "psms", "X.targets", "run-1", "a", "sample.1", "run_2"]   # prefixes other than collN (the CLI uses file stems)
 
 
 # ============================================================================ tap on mutating I/O
@@ -223,8 +255,29 @@ class IoTap:
         return False
 
 
+class _Tapped:
+    """the tap around a run; when the run is left by an exception (kill point, injected failure) while worker threads of
+    the run are still busy, the tap — and the working directory — stay as they are until those threads are gone: a killed
+    process has no thread that goes on writing"""
+
+    def __init__(self, tap):
+        self.tap = tap
+
+    def __enter__(self):
+        self.n0 = threading.active_count()
+        self.tap.__enter__()
+        return self.tap
+
+    def __exit__(self, *a):
+        import time
+        t_end = time.time() + 10
+        while threading.active_count() > self.n0 and time.time() < t_end:
+            time.sleep(0.005)
+        return self.tap.__exit__(*a)
+
+
 # ============================================================================ generation
-def _gen_run(rng, run_idx, thorough, observed=False):
+def _gen_run(rng, run_idx, thorough, observed=False, vary=True):
     ncoll = rng.choice([1, 1, 2, 3]) if observed else rng.choice([1, 1, 2])
     nkey = rng.choice([1, 2, 4])
     levels = [l for l in LEVEL_COLS if rng.random() < 0.25]
@@ -247,14 +300,43 @@ def _gen_run(rng, run_idx, thorough, observed=False):
         prefixes = [None if (j % 2 == 0) else "coll%d" % j for j in range(ncoll)]
         if rng.random() < 0.5:
             prefixes = prefixes[::-1]
-    return {"files": files, "scores": scores, "levels": levels, "nkey": nkey,
+    spec = {"files": files, "scores": scores, "levels": levels, "nkey": nkey,
             "chunk": max(1, rng.choice([1, 2, 3, 5, nmax - 1, nmax, nmax + 1, 1000] + [d for d in range(2, nmax + 1) if nmax % d == 0])),
             "dedup": rng.random() < 0.6, "rollup": rng.random() < 0.7, "decoys": rng.random() < 0.6,
             "prefixes": prefixes, "fmt": rng.choice(["tsv", "tsv", "tsv", "parquet"]), "workers": 1,
             "end": "complete"}
+    if vary:
+        _vary_options(rng, spec)
+    return spec
 
 
-def _gen_prot_run(rng, run_idx):
+def _vary_options(rng, spec, append_ok=True):
+    """the options and call circumstances a user can vary and that file NAMES or file handling depend on: file_root, the
+    suffix of the input files (it becomes the suffix of the chunk and level files), prefixes that are not of the form
+    collN (dotted, equal to a level name, ...), append_to_output_file, descs, the working directory relative to which
+    dest_dir is given, input files that live in dest_dir.  A separate PRNG stream so that the tables stay what they were"""
+    r = rng
+    spec["root"] = r.choice(ROOTS)
+    spec["ext"] = ".parquet" if spec["fmt"] == "parquet" else r.choice([".pin", ".pin", ".tab", ".csv"])
+    if r.random() < 0.5:
+        pool = r.sample(EXTRA_PFX[:5], 3)
+        spec["prefixes"] = [None if p is None else pool[_pfx_code(p) % 3] for p in spec["prefixes"]]
+    spec["append"] = append_ok and r.random() < 0.12
+    spec["descs"] = [r.random() < 0.8 for _ in spec["files"]]
+    spec["cwd"] = r.choice(["abs", "abs", "rel", "dot"])
+    spec["in_dest"] = r.random() < 0.15
+    return spec
+
+
+def _plain(spec):
+    """the circumstances of the crash / strace sweeps: absolute dest_dir, no appending to old result files"""
+    spec["append"] = False
+    spec["cwd"] = "abs"
+    spec["in_dest"] = False
+    return spec
+
+
+def _gen_prot_run(rng, run_idx, vary=False):
     """one collection whose peptides come from a generated FASTA (protein level on)"""
     from . import c15
     fasta, tp, dp = c15.gen_fasta(rng, "mirror", wide=True)
@@ -265,9 +347,60 @@ def _gen_prot_run(rng, run_idx):
     n = rng.randint(12, 40)
     f = brewlib.gen_file(rng, n, 2, file_idx=run_idx * 10, mult=(1, 2))
     f["data"]["Peptide"] = ["K." + rng.choice(tpeps if t else dpeps) + ".A" for t in f["targets"]]
-    return {"files": [f], "scores": [[float(v) for v in rng.sample(range(-n, 3 * n), n)]], "levels": [], "nkey": 2,
+    spec = {"files": [f], "scores": [[float(v) for v in rng.sample(range(-n, 3 * n), n)]], "levels": [], "nkey": 2,
             "chunk": max(1, rng.choice([1, 2, 3, 5, n - 1, n, n + 1, 1000])), "dedup": rng.random() < 0.6, "rollup": True,
             "decoys": True, "prefixes": [None], "fmt": "tsv", "workers": 1, "end": "complete", "fasta": fasta}
+    if vary:
+        spec["root"] = rng.choice(ROOTS)
+        spec["ext"] = rng.choice([".pin", ".tab"])
+        spec["prefixes"] = [rng.choice([None, "coll0", "a.b"])]
+        spec["cwd"] = rng.choice(["abs", "rel", "dot"])
+        kind = rng.choice(["one", "one", "two", "nodecoys"])
+        if kind == "nodecoys":
+            spec["decoys"] = False          # no decoys.proteins: the oracle of the protein rows is incomplete -> property only
+        elif kind == "two":
+            # a second collection over the same FASTA (own PSM ids, own prefix or shared un-prefixed files): property only
+            n2 = rng.randint(8, 24)
+            f2 = brewlib.gen_file(rng, n2, 2, file_idx=run_idx * 10 + 1, mult=(1, 2))
+            f2["data"]["Peptide"] = ["K." + rng.choice(tpeps if t else dpeps) + ".A" for t in f2["targets"]]
+            spec["files"].append(f2)
+            spec["scores"].append([float(v) for v in rng.sample(range(-n2, 3 * n2), n2)])
+            spec["prefixes"].append(rng.choice([None, "coll1", spec["prefixes"][0]]))
+    return spec
+
+
+JUNK_KINDS_NEW = ["near-chunk", "near-level", "near-result", "other-root", "other-ext", "empty-own", "garbage-result", "subdir",
+                  "prot-names"]
+
+
+def _more_junk(rng, obs, k):
+    """leftovers next to the names of the run: near misses of every name pattern, the same names under another file_root or
+    suffix, empty / garbage files under the run's own names, a sub-directory holding chunk- and result-like files"""
+    out = []
+    for _ in range(k):
+        j = rng.randrange(len(obs["files"]))
+        out.append({"kind": rng.choice(JUNK_KINDS_NEW), "index": rng.choice([0, 0, 1, 2, 7]), "pfx": rng.choice([None, obs["prefixes"][j]]),
+                    "seed": rng.randint(0, 10 ** 6), "variant": rng.randint(0, 50)})
+    return out
+
+
+def _rerun(rng, obs):
+    """an earlier run with the observed run's own specification (the user repeats a run that was interrupted / that
+    completed), possibly with another chunk size or option set"""
+    import copy
+    r = copy.deepcopy(obs)
+    r["workers"] = rng.choice([1, 1, 3])
+    mode = rng.choice(["kill", "kill", "fail", "complete"])
+    r["end"] = mode if mode == "complete" else [mode, rng.randint(0, 60)]
+    what = rng.choice(["same", "same", "chunk", "options"])
+    if what == "chunk":
+        r["chunk"] = max(1, rng.choice([1, 2, 3, obs["chunk"] + 1, obs["chunk"] - 1]))
+    elif what == "options":
+        r["decoys"] = True
+        r["rollup"] = True
+        r["dedup"] = not obs["dedup"]
+    r["append"] = False
+    return r
 
 
 def gen(ctx):
@@ -285,21 +418,56 @@ def gen(ctx):
                 for _ in range(rng.choice([1, 2, 3]))]
         cases.append({"fn": "dirty", "runs": runs, "observed": obs, "junk": junk,
                       "tags": ["dirty", "proteins", "earlier=%d" % len(runs), "junk=%d" % len(junk)]})
+    # ---- protein level with a prefix / file_root / other suffix / relative dest_dir; two collections or decoys=False are
+    #      checked with the property alone (dirty vs clean, nothing left)
+    rng = ctx.sub("proteins2")
+    for k in range(45 if ctx.thorough else 9):
+        obs = _gen_prot_run(rng, 8, vary=True)
+        runs = []
+        if k % 3 == 1:
+            r = _gen_prot_run(rng, 1, vary=True)
+            r["root"], r["ext"] = obs["root"], obs["ext"]
+            r["end"] = [rng.choice(["kill", "fail"]), rng.randint(5, 60)]
+            runs.append(r)
+        elif k % 3 == 2:
+            runs.append(_rerun(rng, obs))
+        junk = [{"kind": rng.choice(["level", "own-result", "chunk", "prot-names", "empty-own"]), "index": rng.randint(0, 50),
+                 "pfx": rng.choice([None, obs["prefixes"][0]]), "seed": rng.randint(0, 10 ** 6), "variant": rng.randint(0, 50)}
+                for _ in range(rng.choice([1, 2, 3]))]
+        junk.append({"kind": "own-result", "index": rng.randint(0, 50), "pfx": None, "seed": rng.randint(0, 10 ** 6)})
+        cases.append({"fn": "dirty", "runs": runs, "observed": obs, "junk": junk,
+                      "tags": ["dirty", "proteins", "proteins-varied", "earlier=%d" % len(runs), "junk=%d" % len(junk),
+                               "root=" + (obs["root"] or "-"), "ext=" + obs["ext"], "ncoll=%d" % len(obs["files"]),
+                               "decoys=%s" % obs["decoys"], "cwd=" + obs["cwd"]]})
     rng = ctx.sub("dirty")
-    n_dirty = 140 if ctx.thorough else 26
+    rng2 = ctx.sub("dirty-options")
+    n_dirty = 220 if ctx.thorough else 40
     for k in range(n_dirty):
         n_earlier = rng.choice([0, 1, 1, 2, 3]) if k % 7 else 0
         runs = []
         for r in range(n_earlier):
-            spec = _gen_run(rng, r, ctx.thorough)
+            spec = _gen_run(rng, r, ctx.thorough, vary=False)
             mode = rng.choice(["kill", "kill", "fail", "fail", "complete"])
             spec["end"] = mode if mode == "complete" else [mode, rng.randint(0, 60)]
             runs.append(spec)
-        obs = _gen_run(rng, 8, ctx.thorough, observed=True)
+        obs = _gen_run(rng, 8, ctx.thorough, observed=True, vary=False)
         obs["workers"] = rng.choice([1, 1, 3])
         if runs and rng.random() < 0.7:
             # leftovers are most dangerous when the earlier run used the same naming
             obs["fmt"] = runs[-1]["fmt"]
+        # every second case keeps the plain circumstances (file_root "", .pin / .parquet, collN prefixes, absolute dest_dir);
+        # the others vary them, the earlier runs mostly sharing file_root and suffix with the observed run
+        if k % 2:
+            _vary_options(rng2, obs)
+            for r in runs:
+                _vary_options(rng2, r, append_ok=False)
+                r["workers"] = rng2.choice([1, 1, 3])
+                if rng2.random() < 0.7:
+                    r["root"] = obs["root"]
+                    if r["fmt"] == obs["fmt"]:
+                        r["ext"] = obs["ext"]
+            if rng2.random() < 0.4:
+                runs.append(_rerun(rng2, obs))
         junk = []
         for _ in range(rng.choice([0, 1, 2, 3])):
             junk.append({"kind": rng.choice(["chunk", "chunk", "level", "result", "garbage-chunk", "other"]),
@@ -314,21 +482,25 @@ def gen(ctx):
         if rng.random() < 0.6:
             # an old result file under exactly a name the observed run will write
             junk.append({"kind": "own-result", "index": rng.randint(0, 50), "pfx": None, "seed": rng.randint(0, 10 ** 6)})
+        junk += _more_junk(rng2, obs, rng2.choice([0, 1, 2, 3]))
+        if obs.get("append"):
+            junk.append({"kind": "append-base", "index": 0, "pfx": None, "seed": rng2.randint(0, 10 ** 6)})
         cases.append({"fn": "dirty", "runs": runs, "observed": obs, "junk": junk,
-                      "tags": ["dirty", "earlier=%d" % n_earlier, "junk=%d" % len(junk), "fmt=" + obs["fmt"],
+                      "tags": ["dirty", "earlier=%d" % len(runs), "junk=%d" % len(junk), "fmt=" + obs["fmt"],
                                "prefix-layout=" + ("none" if not any(obs["prefixes"]) else "all" if all(obs["prefixes"]) else "mixed")]
-                              + ["end=" + (r["end"] if isinstance(r["end"], str) else r["end"][0]) for r in runs]})
+                              + ["end=" + (r["end"] if isinstance(r["end"], str) else r["end"][0]) for r in runs]
+                              + _option_tags(obs) + sorted(set("junk:" + j["kind"] for j in junk))})
     # ---- every layout of collection prefixes (2 collections: all 9; 3 collections: a sample), small tables, with an old
     #      result file under a name the run writes
     rng = ctx.sub("layouts")
-    import itertools
+    rng2 = ctx.sub("layouts-options")
     lay2 = list(itertools.product([None, "coll0", "coll1"], repeat=2))
     lay3 = list(itertools.product([None, "coll0", "coll1"], repeat=3))
     rng.shuffle(lay3)
-    for layout in lay2 + lay3[: (27 if ctx.thorough else 7)]:
-        obs = _gen_run(rng, 8, False, observed=True)
+    for li, layout in enumerate(lay2 + lay3[: (27 if ctx.thorough else 7)]):
+        obs = _gen_run(rng, 8, False, observed=True, vary=False)
         while len(obs["files"]) < len(layout):
-            extra = _gen_run(rng, 8, False, observed=True)
+            extra = _gen_run(rng, 8, False, observed=True, vary=False)
             j = len(obs["files"])
             f = brewlib.gen_file(rng, rng.randint(3, 10), obs["nkey"], file_idx=80 + j, levels=obs["levels"])
             obs["files"].append(f)
@@ -342,16 +514,87 @@ def gen(ctx):
         obs["prefixes"] = list(layout)
         obs["fmt"] = "tsv"
         junk = [{"kind": "own-result", "index": rng.randint(0, 50), "pfx": None, "seed": rng.randint(0, 10 ** 6)} for _ in range(2)]
+        if li % 2:
+            # the same sweep under a file_root / another suffix / append_to_output_file
+            obs["root"] = rng2.choice(ROOTS[3:])
+            obs["ext"] = rng2.choice([".pin", ".tab", ".csv"])
+            obs["descs"] = [rng2.random() < 0.7 for _ in obs["files"]]
+            if li % 4 == 3:
+                obs["append"] = True
+                junk.append({"kind": "append-base", "index": 0, "pfx": None, "seed": rng2.randint(0, 10 ** 6)})
+                junk.insert(0, {"kind": "level", "index": 0, "pfx": None, "seed": rng2.randint(0, 10 ** 6)})
         cases.append({"fn": "dirty", "runs": [], "observed": obs, "junk": junk,
-                      "tags": ["dirty", "layout-sweep", "layout=" + "/".join(str(x) for x in layout)]})
+                      "tags": ["dirty", "layout-sweep", "layout=" + "/".join(str(x) for x in layout)] + _option_tags(obs)})
+    # ---- results go to an SQLite database (sqlite_path): result files are removed again, nothing else may remain
+    rng = ctx.sub("sqlite")
+    for k in range(30 if ctx.thorough else 6):
+        obs = _gen_run(rng, 8, False, observed=True)
+        obs["append"] = False
+        obs["sqlite"] = True
+        obs["levels"] = [l for l in obs["levels"]]
+        runs = []
+        if k % 2:
+            r = _gen_run(rng, 1, False)
+            r["root"], r["append"] = obs["root"], False
+            mode = rng.choice(["kill", "fail", "complete"])
+            r["end"] = mode if mode == "complete" else [mode, rng.randint(0, 40)]
+            runs.append(r)
+        junk = [{"kind": rng.choice(["chunk", "level", "own-result", "near-level", "empty-own"]), "index": rng.choice([0, 1, 2, 5]),
+                 "pfx": rng.choice([None, obs["prefixes"][0]]), "seed": rng.randint(0, 10 ** 6), "variant": rng.randint(0, 50)}
+                for _ in range(rng.choice([1, 2, 3]))]
+        cases.append({"fn": "dirty", "runs": runs, "observed": obs, "junk": junk,
+                      "tags": ["dirty", "sqlite", "earlier=%d" % len(runs), "junk=%d" % len(junk)] + _option_tags(obs)})
+    # ---- collections of different formats in one call (text first: the level files are text, the chunk files of the
+    #      second collection Parquet): property only
+    rng = ctx.sub("mixed-formats")
+    for k in range(16 if ctx.thorough else 3):
+        obs = _gen_run(rng, 8, False, observed=True)
+        while len(obs["files"]) < 2:
+            obs = _gen_run(rng, 8, False, observed=True)
+        obs["fmt"] = "tsv"
+        obs["ext"] = rng.choice([".pin", ".tab"])
+        obs["exts"] = [obs["ext"]] + [rng.choice([".parquet", ".parquet", obs["ext"]]) for _ in obs["files"][1:]]
+        if ".parquet" not in obs["exts"]:
+            obs["exts"][-1] = ".parquet"
+        obs["append"] = False
+        junk = [{"kind": rng.choice(["chunk", "level", "own-result"]), "index": rng.choice([0, 1, 2]),
+                 "pfx": rng.choice([None] + obs["prefixes"]), "seed": rng.randint(0, 10 ** 6)} for _ in range(3)]
+        junk.append({"kind": "chunk-ext", "index": rng.choice([0, 1]), "pfx": obs["prefixes"][1], "seed": rng.randint(0, 10 ** 6), "ext": ".parquet"})
+        cases.append({"fn": "dirty", "runs": [], "observed": obs, "junk": junk,
+                      "tags": ["dirty", "mixed-formats", "junk=%d" % len(junk)] + _option_tags(obs)})
+    # ---- tiny tables (1-3 PSMs per collection; only targets / only decoys): every chunk / batch / level file is a border case
+    rng = ctx.sub("small-tables")
+    for k in range(36 if ctx.thorough else 8):
+        obs = _gen_run(rng, 8, False, observed=True)
+        kinds = []
+        for j, f in enumerate(obs["files"]):
+            n = rng.randint(1, 3)
+            for col in f["data"]:
+                f["data"][col] = f["data"][col][:n]
+            mode = rng.choice(["as-is", "as-is", "all-target", "all-decoy"])
+            tg = f["targets"][:n] if mode == "as-is" else [mode == "all-target"] * n
+            f["targets"] = tg
+            f["data"]["Label"] = [1 if t else -1 for t in tg]
+            obs["scores"][j] = obs["scores"][j][:n]
+            kinds.append(mode)
+        obs["chunk"] = rng.choice([1, 2, 3, 1000])
+        junk = [{"kind": rng.choice(["chunk", "level", "own-result", "empty-own", "garbage-result"]), "index": rng.choice([0, 1, 2, 3]),
+                 "pfx": rng.choice([None] + obs["prefixes"]), "seed": rng.randint(0, 10 ** 6), "variant": rng.randint(0, 50)}
+                for _ in range(rng.choice([1, 2, 3]))]
+        if obs.get("append"):
+            junk.append({"kind": "append-base", "index": 0, "pfx": None, "seed": rng.randint(0, 10 ** 6)})
+        cases.append({"fn": "dirty", "runs": [_rerun(rng, obs)] if k % 3 == 0 else [], "observed": obs, "junk": junk,
+                      "tags": ["dirty", "small-tables", "junk=%d" % len(junk)] + sorted(set("rows:" + x for x in kinds)) + _option_tags(obs)})
     # ---- kill points of one run, every k
     rng = ctx.sub("crash")
     for k in range(10 if ctx.thorough else 3):
-        spec = _gen_run(rng, 8, False, observed=True)
+        spec = _plain(_gen_run(rng, 8, False, observed=True))
         spec["fmt"] = "tsv"
+        if spec["ext"] == ".parquet":
+            spec["ext"] = ".pin"
         if k == 0:
             spec["chunk"] = 2
-        cases.append({"fn": "crash", "observed": spec, "tags": ["crash-sweep"]})
+        cases.append({"fn": "crash", "observed": spec, "tags": ["crash-sweep"] + _option_tags(spec)})
     # ---- the CLI's verify step
     rng = ctx.sub("verify")
     for k in range(60 if ctx.thorough else 16):
@@ -359,15 +602,7 @@ def gen(ctx):
         nfeat = rng.randint(0, 3)
         ragged = rng.random() < 0.75
         dd = rng.random() < 0.3
-        header = ["SpecId", "Label", "ScanNr"] + ["f%d" % i for i in range(nfeat)] + ["Peptide", "Proteins"]
-        lines = ["\t".join(header)]
-        if dd:
-            lines.append("\t".join(["DefaultDirection", "-", "-"] + ["1"] * nfeat + ["-", "-"]))
-        for r in range(nrow):
-            np_ = rng.randint(2, 4) if (ragged and (r == 0 or rng.random() < 0.5)) else 1
-            lines.append("\t".join(["id%d" % r, rng.choice(["1", "-1"]), str(r + 1)] + [str(rng.randint(0, 9)) for _ in range(nfeat)]
-                                   + ["K.PEP%dK.A" % r] + ["prot%d" % rng.randint(0, 9) for _ in range(np_)]))
-        txt = "\n".join(lines) + ("\n" if rng.random() < 0.8 else "")
+        txt, header = _gen_pin_text(rng, nrow, nfeat, ragged, dd)
         left = rng.choice([None, None, "LEFTOVER\tJUNK\n", "\t".join(header) + "\nold\t1\t7\n", ""])
         cases.append({"fn": "verify", "pin": txt, "leftover": left,
                       "tags": ["verify", "ragged" if ragged else "rectangular", "dd" if dd else "nodd",
@@ -384,14 +619,123 @@ def gen(ctx):
             cases.append({"fn": "verify", "pin": txt, "leftover": left,
                           "tags": ["verify", "zero-psm", "rectangular", "dd" if dd else "nodd",
                                    "leftover" if left is not None else "no-leftover"]})
+    # several PIN files in one call (ragged and rectangular ones mixed, leftovers next to some of them, file names given
+    # relative to the working directory, names with dots / spaces, a leftover that is a complete older conversion)
+    rng = ctx.sub("verify-multi")
+    for k in range(30 if ctx.thorough else 10):
+        npin = rng.choice([2, 2, 3])
+        names = rng.sample(["x.pin", "y.pin", "sample.1.pin", "b c.pin", "x.pin.pin", "z.tab"], npin)
+        pins = []
+        for nm in names:
+            ragged = rng.random() < 0.6
+            txt, header = _gen_pin_text(rng, rng.randint(1, 5), rng.randint(0, 2), ragged, rng.random() < 0.3)
+            old, _ = _gen_pin_text(rng, rng.randint(1, 4), rng.randint(0, 2), False, False)
+            left = rng.choice([None, "LEFTOVER\tJUNK\n", old, old.rstrip("\n"), ""])
+            pins.append({"name": nm, "pin": txt, "leftover": left})
+        cases.append({"fn": "verify", "pins": pins, "rel": rng.random() < 0.5,
+                      "tags": ["verify", "multi-pin", "npin=%d" % npin,
+                               "leftover" if any(p["leftover"] is not None for p in pins) else "no-leftover"]})
+    # ---- the whole command line (verify step, read_pin, brew, assign_confidence, --save_models) in a dirty directory
+    rng = ctx.sub("cli")
+    for k in range(90 if ctx.thorough else 16):
+        cases.append(_gen_cli(rng, k))
+    # ---- the stand-alone rollup tool in a destination directory that holds temp.<level>s / result files of earlier rollups
+    rng = ctx.sub("rollup")
+    for k in range(40 if ctx.thorough else 10):
+        cases.append(_gen_rollup(rng, k))
     # ---- real subprocesses: strace cross-check of the tap, hard kill
     rng = ctx.sub("strace")
     for k in range(6 if ctx.thorough else 2):
-        spec = _gen_run(rng, 8, False, observed=True)
+        spec = _plain(_gen_run(rng, 8, False, observed=True))
         spec["fmt"] = "tsv" if k % 2 == 0 else "parquet"
+        spec["ext"] = ".parquet" if spec["fmt"] == "parquet" else (spec["ext"] if spec["ext"] != ".parquet" else ".pin")
         cases.append({"fn": "strace", "observed": spec, "exit_at": rng.randint(1, 12) if k % 2 else None,
-                      "tags": ["strace", "fmt=" + spec["fmt"]]})
+                      "tags": ["strace", "fmt=" + spec["fmt"]] + _option_tags(spec)})
     return cases
+
+
+def _option_tags(obs):
+    t = ["root=" + (obs.get("root") or "-"), "ext=" + _ext(obs), "cwd=" + obs.get("cwd", "abs")]
+    if obs.get("append"):
+        t.append("append_to_output_file")
+    if obs.get("in_dest"):
+        t.append("inputs-in-dest")
+    if not all(obs.get("descs") or [True]):
+        t.append("descs-false")
+    if any(p and _pfx_code(p) >= 100 for p in obs["prefixes"]):
+        t.append("prefix-not-collN")
+    if obs.get("workers", 1) > 1:
+        t.append("workers>1")
+    return t
+
+
+def _gen_pin_text(rng, nrow, nfeat, ragged, dd):
+    header = ["SpecId", "Label", "ScanNr"] + ["f%d" % i for i in range(nfeat)] + ["Peptide", "Proteins"]
+    lines = ["\t".join(header)]
+    if dd:
+        lines.append("\t".join(["DefaultDirection", "-", "-"] + ["1"] * nfeat + ["-", "-"]))
+    for r in range(nrow):
+        np_ = rng.randint(2, 4) if (ragged and (r == 0 or rng.random() < 0.5)) else 1
+        lines.append("\t".join(["id%d" % r, rng.choice(["1", "-1"]), str(r + 1)] + [str(rng.randint(0, 9)) for _ in range(nfeat)]
+                               + ["K.PEP%dK.A" % r] + ["prot%d" % rng.randint(0, 9) for _ in range(np_)]))
+    return "\n".join(lines) + ("\n" if rng.random() < 0.8 else ""), header
+
+
+# ---- the whole command line
+CLI_STEMS = ["a", "b", "sample.1", "run_2", "coll0"]
+
+
+def _gen_cli_run(rng, run_idx, stems=None):
+    npin = rng.choice([1, 2, 2, 3])
+    stems = stems or rng.sample(CLI_STEMS, npin)
+    pins = []
+    for j, st in enumerate(stems):
+        n = rng.randint(36, 70)
+        f = brewlib.gen_file(rng, n, 2, file_idx=run_idx * 10 + j, mult=(1, 2), npep=max(4, n // 3))
+        ragged = rng.random() < 0.4
+        cols = [c for c in f["columns"] if c != "rid"]
+        lines = ["\t".join(cols)]
+        for r in range(n):
+            row = [str(f["data"][c][r]) for c in cols]
+            if ragged and (r == 0 or rng.random() < 0.3):
+                row += ["prot%d" % rng.randint(6, 9) for _ in range(rng.randint(1, 2))]
+            lines.append("\t".join(row))
+        pins.append({"stem": st, "text": "\n".join(lines) + "\n", "ragged": ragged,
+                     "leftover": rng.choice([None, None, "LEFTOVER\tJUNK\n", "\t".join(cols) + "\nold\t1\t7\n"])})
+    return {"pins": pins, "file_root": rng.choice([None, None, "r", "exp.1"]), "aggregate": rng.random() < 0.35,
+            "keep_decoys": rng.random() < 0.6, "skip_rollup": rng.random() < 0.25, "save_models": rng.random() < 0.6,
+            "workers": rng.choice([1, 1, 2]), "folds": rng.choice([2, 3]), "dest": rng.choice(["abs", "abs", "rel", "default"]),
+            "in_dest": rng.random() < 0.25, "pins_rel": rng.random() < 0.3, "chunk": rng.choice([7, 16, 1000]),
+            "seed": rng.randint(1, 50), "end": "complete"}
+
+
+def _gen_cli(rng, k):
+    obs = _gen_cli_run(rng, 8)
+    runs = []
+    for r in range(rng.choice([0, 1, 1, 2]) if k % 5 else 0):
+        same_names = rng.random() < 0.5
+        e = _gen_cli_run(rng, r, stems=[p["stem"] for p in obs["pins"]] if same_names else None)
+        if rng.random() < 0.7:
+            e["file_root"] = obs["file_root"]
+        if rng.random() < 0.5:
+            e["aggregate"] = obs["aggregate"]
+        if same_names and rng.random() < 0.5:
+            e["save_models"] = True
+        e["dest"], e["in_dest"] = "abs", False
+        mode = rng.choice(["kill", "fail", "complete", "complete"])
+        e["end"] = mode if mode == "complete" else [mode, rng.randint(0, 40)]
+        runs.append(e)
+    junk = []
+    for _ in range(rng.choice([1, 2, 3, 4])):
+        junk.append({"kind": rng.choice(["own-result", "own-result", "own-model", "level", "chunk", "near-result", "near-level", "near-model",
+                                         "empty-own", "other-root"]),
+                     "index": rng.randint(0, 50), "pfx": rng.choice([None, obs["pins"][0]["stem"]]), "seed": rng.randint(0, 10 ** 6),
+                     "variant": rng.randint(0, 50)})
+    tags = ["cli", "npin=%d" % len(obs["pins"]), "earlier=%d" % len(runs), "dest=" + obs["dest"],
+            "file_root=" + str(obs["file_root"])] + [o for o in ("aggregate", "keep_decoys", "skip_rollup", "save_models", "in_dest", "pins_rel") if obs[o]] \
+        + (["ragged-pin"] if any(p["ragged"] for p in obs["pins"]) else []) \
+        + ["end=" + (r["end"] if isinstance(r["end"], str) else r["end"][0]) for r in runs] + sorted(set("junk:" + j["kind"] for j in junk))
+    return {"fn": "cli", "runs": runs, "observed": obs, "junk": junk, "tags": tags}
 
 
 # ============================================================================ running the real code
@@ -400,15 +744,116 @@ def _const_peps(scores, targets, *a, **k):
     return np.zeros(len(scores))
 
 
-def _exec_run(spec, indir, out, tap):
+def _ext(spec, j=0):
+    """suffix of the j-th input file (the level files take the suffix of the first one, the chunk files that of their own)"""
+    if spec.get("exts"):
+        return spec["exts"][j]
+    if spec.get("ext"):
+        return spec["ext"]
+    return ".parquet" if spec["fmt"] == "parquet" else ".pin"
+
+
+def _root(spec):
+    return spec.get("root") or ""
+
+
+def _desc(spec, j):
+    d = spec.get("descs")
+    return True if not d else bool(d[j])
+
+
+def _score(spec, j, r):
+    """the score the collection is ranked by (descs[j] False: the negated score)"""
+    v = spec["scores"][j][r]
+    return v if _desc(spec, j) else -v
+
+
+def _write_input(f, d, name, ext):
+    import pandas as pd
+    df = pd.DataFrame(f["data"], columns=f["columns"])
+    p = Path(d) / (name + ext)
+    if ext == ".parquet":
+        df.to_parquet(p, index=False, row_group_size=max(1, len(df)))
+    else:
+        df.to_csv(p, sep="\t", index=False)
+    _age(p)
+    return p
+
+
+OLD_MTIME = 1000000000      # 2001-09-09
+
+
+def _age(p):
+    """the user's input files are older than anything an earlier run has left behind (a leftover that is 'up to date' with
+    respect to the input must still not be used)"""
+    os.utime(p, (OLD_MTIME, OLD_MTIME))
+
+
+SQLITE_TABLES = {"CANDIDATE": "CANDIDATE_ID", "PRECURSOR_VALIDATION": "PCM_ID", "MODIFIED_PEPTIDE_VALIDATION": "MODIFIED_PEPTIDE_ID",
+                 "PEPTIDE_VALIDATION": "PEPTIDE_ID", "PEPTIDE_GROUP_VALIDATION": "PEPTIDE_GROUP_ID"}
+
+
+def _make_db(path, spec):
+    import sqlite3
+    con = sqlite3.connect(path)
+    for tb, idc in SQLITE_TABLES.items():
+        if tb == "CANDIDATE":
+            con.execute("CREATE TABLE CANDIDATE (CANDIDATE_ID TEXT, PSM_FDR REAL, SVM_SCORE REAL, POSTERIOR_ERROR_PROBABILITY REAL)")
+        else:
+            con.execute("CREATE TABLE %s (%s TEXT, FDR REAL, PEP REAL, SVM_SCORE REAL)" % (tb, idc))
+    for f in spec["files"]:
+        for pid in f["data"]["SpecId"]:
+            con.execute("INSERT INTO CANDIDATE (CANDIDATE_ID) VALUES(?)", (pid,))
+    con.commit()
+    con.close()
+
+
+def _dump_db(path):
+    import sqlite3
+    con = sqlite3.connect(path)
+    out = {tb: [list(r) for r in con.execute("SELECT * FROM %s" % tb).fetchall()] for tb in SQLITE_TABLES}
+    con.close()
+    return out
+
+
+def _exec_run(spec, indir, out, tap, tag="in", info=None):
     """read_pin + assign_confidence of one run specification; returns how it ended"""
+    import hashlib
     import numpy as np
     import mokapot
     import mokapot.confidence as conf
     old = conf.peps_from_scores
     conf.peps_from_scores = _const_peps
+    cwd0 = os.getcwd()
+    info = info if info is not None else {}
     try:
-        paths = [brewlib.write_file(f, indir, "in%d" % i, spec["fmt"]) for i, f in enumerate(spec["files"])]
+        where = out if spec.get("in_dest") else indir
+        paths = [_write_input(f, where, "%s%d" % (tag, i), _ext(spec, i)) for i, f in enumerate(spec["files"])]
+        digest = {str(p): hashlib.sha256(p.read_bytes()).hexdigest() for p in paths}
+        db = None
+        if spec.get("sqlite"):
+            db = Path(indir) / "results.db"
+            if db.exists():
+                db.unlink()
+            _make_db(db, spec)
+        mode = spec.get("cwd", "abs")
+        if mode == "rel":
+            os.chdir(Path(out).parent)
+            dest = Path(Path(out).name)
+        elif mode == "dot":
+            os.chdir(out)
+            dest = Path(".")
+        else:
+            dest = Path(out)
+        kw = {}
+        if spec.get("root"):
+            kw["file_root"] = spec["root"]
+        if spec.get("descs") is not None:
+            kw["descs"] = [bool(x) for x in spec["descs"]]
+        if spec.get("append"):
+            kw["append_to_output_file"] = True
+        if db is not None:
+            kw["sqlite_path"] = db
         with brewlib.Chunking(confidence=spec["chunk"]):
             dss = mokapot.read_pin(paths, max_workers=1)
             P = None
@@ -416,20 +861,31 @@ def _exec_run(spec, indir, out, tap):
                 from . import c15
                 P = c15._proteins({"fasta": spec["fasta"], "fasta_args": dict(c15.FASTA_ARGS)})
             try:
-                with tap:
-                    mokapot.assign_confidence(
-                        dss, max_workers=spec.get("workers", 1),
-                        scores=[np.array(s, dtype=float) for s in spec["scores"]],
-                        eval_fdr=0.5, dest_dir=Path(out), prefixes=list(spec["prefixes"]), decoys=spec["decoys"],
-                        deduplication=spec["dedup"], do_rollup=spec["rollup"], proteins=P, rng=7)
-                return "complete"
-            except KillSim:
-                return "killed"
-            except Injected:
-                return "failed"
-            except Exception as e:       # noqa: the run itself raised
-                return "raised " + type(e).__name__
+                try:
+                    with _Tapped(tap):
+                        mokapot.assign_confidence(
+                            dss, max_workers=spec.get("workers", 1),
+                            scores=[np.array(s, dtype=float) for s in spec["scores"]],
+                            eval_fdr=0.5, dest_dir=dest, prefixes=list(spec["prefixes"]), decoys=spec["decoys"],
+                            deduplication=spec["dedup"], do_rollup=spec["rollup"], proteins=P, rng=7, **kw)
+                    return "complete"
+                except KillSim:
+                    return "killed"
+                except Injected:
+                    return "failed"
+                except Exception as e:       # noqa: the run itself raised
+                    return "raised " + type(e).__name__
+            finally:
+                os.chdir(cwd0)
+                info["inputs_changed"] = sorted(os.path.basename(p) for p, h in digest.items()
+                                                if not os.path.exists(p) or hashlib.sha256(Path(p).read_bytes()).hexdigest() != h)
+                if db is not None:
+                    try:
+                        info["db"] = _dump_db(db)
+                    except Exception as e:     # noqa
+                        info["db"] = "unreadable: " + type(e).__name__
     finally:
+        os.chdir(cwd0)
         conf.peps_from_scores = old
 
 
@@ -450,25 +906,30 @@ def _level_names(spec):
     return names
 
 
-def _ext(spec):
-    return ".parquet" if spec["fmt"] == "parquet" else ".pin"
-
-
 # ---- structured names
 def _pfx_code(p):
     if not p:
         return 0
     if p.startswith("coll") and p[4:].isdigit():
         return int(p[4:]) + 1
+    if p in EXTRA_PFX:
+        return 100 + EXTRA_PFX.index(p)
     return None
 
 
 def struct_name(fn, obs):
-    """file name -> structured name of Model/Fs.v, relative to the observed run's configuration"""
+    """file name -> structured name of Model/Fs.v, relative to the observed run's configuration: its file_root is stripped
+    (a name without it is none of the run's), its text suffix stands for 'not Parquet' (text files of another suffix are
+    none of the run's either)"""
+    root = _root(obs)
+    if not fn.startswith(root):
+        return ("other", fn)
+    rest = fn[len(root):]
     levels = _level_names(obs)
-    for ext, eb in ((".parquet", True), (".pin", False)):
-        if fn.endswith(ext):
-            stem = fn[: -len(ext)]
+    text_ext = _ext(obs) if _ext(obs) != ".parquet" else ".pin"
+    for ext, eb in ((".parquet", True), (text_ext, False)):
+        if rest.endswith(ext):
+            stem = rest[: -len(ext)]
             if "scores_metadata_" in stem:
                 pre, _, idx = stem.partition("scores_metadata_")
                 code = _pfx_code(pre[:-1]) if pre.endswith(".") else (0 if pre == "" else None)
@@ -476,7 +937,7 @@ def struct_name(fn, obs):
                     return ("chunk", code, int(idx), eb)
             if stem in levels:
                 return ("level", levels.index(stem), eb)
-    parts = fn.split(".")
+    parts = rest.split(".")
     if len(parts) >= 2 and parts[-2] in ("targets", "decoys") and parts[-1] in levels:
         pre = ".".join(parts[:-2])
         code = _pfx_code(pre)
@@ -574,7 +1035,7 @@ def _cfg_tok(obs, reg, glob=False, prot_tables=None):
     level_cols = ["Peptide"] + obs["levels"] if obs["rollup"] else []
     colls = []
     for j, f in enumerate(obs["files"]):
-        rows = [reg.row_tok(f["data"]["SpecId"][r], obs["scores"][j][r], level_cols) for r in range(len(f["targets"]))]
+        rows = [reg.row_tok(f["data"]["SpecId"][r], _score(obs, j, r), level_cols) for r in range(len(f["targets"]))]
         prot = (prot_tables or {}).get(j)
         if prot is None:
             ptok = "0"
@@ -583,8 +1044,8 @@ def _cfg_tok(obs, reg, glob=False, prot_tables=None):
             ptok = "1 %s %d %s" % (lib.lst(ids), len(prow), " ".join(prow))
         colls.append("%s %d %s %s" % (lib.z(_pfx_code(obs["prefixes"][j])), len(rows), " ".join(rows), ptok))
     return "%s %s %s %s %s %s %s %s %d %s" % (
-        lib.b(obs["fmt"] == "parquet"), lib.z(obs["chunk"]), lib.b(obs["dedup"]), lib.z(len(_level_names(obs)) - (1 if obs.get("fasta") else 0)),
-        lib.b(obs["decoys"]), lib.b(False), lib.b(glob), lib.b(bool(prot_tables)), len(colls), " ".join(colls))
+        lib.b(_ext(obs) == ".parquet"), lib.z(obs["chunk"]), lib.b(obs["dedup"]), lib.z(len(_level_names(obs)) - (1 if obs.get("fasta") else 0)),
+        lib.b(obs["decoys"]), lib.b(bool(obs.get("append"))), lib.b(glob), lib.b(bool(prot_tables)), len(colls), " ".join(colls))
 
 
 def _fs_tok(snap, obs, reg, other_ids):
@@ -593,6 +1054,10 @@ def _fs_tok(snap, obs, reg, other_ids):
     for fn, (sn, rows) in snap.items():
         rs = []
         for pid, sc, qv in (rows or []):
+            if pid not in reg.rows:
+                # a row of a leftover that no run of this case produced (protein groups of an earlier run, ...): give it an
+                # id of its own so that the model hands it back under its name
+                reg.rows[pid] = {"code": 6000000 + len(reg.rows), "spec": 0, "keys": {}, "target": True}
             q = qv if qv is not None else Fraction(0)
             rs.append("%s %s" % (reg.row_tok(pid, sc if sc is not None else 0, level_cols), lib.q(q)))
         ents.append("%s %d %s" % (_tok_name(sn, other_ids), len(rs), " ".join(rs)))
@@ -649,13 +1114,14 @@ def _prot_tables(obs, reg, clean_out):
     must hold (computed with the C03 model) and the protein-level rows (names registered as row ids)"""
     level_cols = ["Peptide"] + obs["levels"]
     f = obs["files"][0]
-    rows = [reg.row_tok(f["data"]["SpecId"][r], obs["scores"][0][r], level_cols) for r in range(len(f["targets"]))]
+    rows = [reg.row_tok(f["data"]["SpecId"][r], _score(obs, 0, r), level_cols) for r in range(len(f["targets"]))]
     nl = len(_level_names(obs)) - 1
     line = lib.run_driver(["c03.levels %s %s %s %s %d %s" % (lib.z(obs["chunk"]), lib.b(obs["dedup"]), lib.b(obs["dedup"]), lib.z(nl), len(rows), " ".join(rows))])[0]
     t = Toks(line)
     lv = t.lst(lambda: t.lst(t.z))
     prow = []
-    for fn, flag in (("targets.proteins", True), ("decoys.proteins", False)):
+    pre = _root(obs) + ((obs["prefixes"][0] + ".") if obs["prefixes"][0] else "")
+    for fn, flag in ((pre + "targets.proteins", True), (pre + "decoys.proteins", False)):
         rws = _parse_table(Path(clean_out) / fn)
         if rws is None:
             return None
@@ -672,10 +1138,23 @@ def _model_trace(obs, reg, prot_tables=None):
     return [[k, list(n)] for k, n in t.lst(lambda: (t.z(), _read_name(t, {})))]
 
 
+def _result_frame(df, obs, n=None):
+    """a table with the columns of the run's result files (PSM and rollup levels)"""
+    import pandas as pd
+    if n is not None:
+        df = df.iloc[:n]
+    cols = {"PSMId": df["SpecId"], "peptide": df["Peptide"]}
+    for lv in (obs["levels"] if obs["rollup"] else []):
+        cols[lv] = df[lv]
+    cols.update({"score": df["score"], "q-value": [0.25] * len(df), "posterior_error_prob": [0.0] * len(df), "proteinIds": df["Proteins"]})
+    return pd.DataFrame(cols)
+
+
 def _write_junk(junk, out, obs, reg):
     """synthetic leftovers; chunk-like ones hold a valid table of foreign PSMs"""
     import random
     import pandas as pd
+    root = _root(obs)
     for j in junk:
         rng = random.Random(j["seed"])
         pre = (j["pfx"] + ".") if j["pfx"] else ""
@@ -685,30 +1164,100 @@ def _write_junk(junk, out, obs, reg):
         df = pd.DataFrame(f["data"], columns=f["columns"])
         df["score"] = [float(v) for v in rng.sample(range(-50, 150), len(df))]
         df = df.sort_values("score", ascending=False)
-        if j["kind"] == "chunk":
+        var = j.get("variant", 0)
+        idx = j["index"]
+        lvn = _level_names(obs)
+
+        def chunk_to(p):
             cols = [c for c in df.columns if not c.startswith("feat") and c != "rid"]
-            p = Path(out) / f"{pre}scores_metadata_{j['index']}{ext}"
-            (df[cols].to_parquet(p, index=False) if ext == ".parquet" else df[cols].to_csv(p, sep="\t", index=False))
-        elif j["kind"] == "garbage-chunk":
-            (Path(out) / f"{pre}scores_metadata_{j['index']}{ext}").write_bytes(b"\x00garbage\tnot a table\n\xff\xfe")
-        elif j["kind"] == "level":
-            lv = rng.choice(_level_names(obs))
+            (df[cols].to_parquet(p, index=False) if str(p).endswith(".parquet") else df[cols].to_csv(p, sep="\t", index=False))
+
+        def level_to(p):
             d2 = pd.DataFrame({"PSMId": df["SpecId"], "Label": df["Label"], "peptide": df["Peptide"],
                                "proteinIds": df["Proteins"], "score": df["score"]})
-            p = Path(out) / f"{lv}{ext}"
-            (d2.to_parquet(p, index=False) if ext == ".parquet" else d2.to_csv(p, sep="\t", index=False))
-        elif j["kind"] == "own-result":
+            (d2.to_parquet(p, index=False) if str(p).endswith(".parquet") else d2.to_csv(p, sep="\t", index=False))
+
+        def result_to(p):
+            _result_frame(df, obs).to_csv(p, sep="\t", index=False)
+
+        kind = j["kind"]
+        if kind == "chunk":
+            chunk_to(Path(out) / f"{root}{pre}scores_metadata_{idx}{ext}")
+        elif kind == "chunk-ext":
+            chunk_to(Path(out) / f"{root}{pre}scores_metadata_{idx}{j['ext']}")
+        elif kind == "garbage-chunk":
+            (Path(out) / f"{root}{pre}scores_metadata_{idx}{ext}").write_bytes(b"\x00garbage\tnot a table\n\xff\xfe")
+        elif kind == "level":
+            level_to(Path(out) / f"{root}{rng.choice(lvn)}{ext}")
+        elif kind == "own-result":
             own = sorted(_own_results(obs))
-            d2 = pd.DataFrame({"PSMId": df["SpecId"], "peptide": df["Peptide"], "score": df["score"],
-                               "q-value": [0.25] * len(df), "posterior_error_prob": [0.0] * len(df), "proteinIds": df["Proteins"]})
-            d2.to_csv(Path(out) / own[j["index"] % len(own)], sep="\t", index=False)
-        elif j["kind"] == "result":
-            lv = rng.choice(_level_names(obs))
-            d2 = pd.DataFrame({"PSMId": df["SpecId"], "peptide": df["Peptide"], "score": df["score"],
-                               "q-value": [0.25] * len(df), "posterior_error_prob": [0.0] * len(df), "proteinIds": df["Proteins"]})
-            d2.to_csv(Path(out) / f"{pre}{rng.choice(['targets', 'decoys'])}.{lv}", sep="\t", index=False)
+            result_to(Path(out) / own[idx % len(own)])
+        elif kind == "garbage-result":
+            own = sorted(_own_results(obs))
+            if not obs.get("append"):
+                (Path(out) / own[idx % len(own)]).write_bytes(b"\x00garbage\tnot a table\n\xff\xfe no newline at the end")
+        elif kind == "result":
+            lv = rng.choice(lvn)
+            result_to(Path(out) / f"{root}{pre}{rng.choice(['targets', 'decoys'])}.{lv}")
+        elif kind == "near-chunk":
+            names = [f"{root}{pre}scores_metadata_{idx}{ext}.bak", f"{root}{pre}scores_metadata_{idx}{ext}~",
+                     f"{root}{pre}scores_metadata_0{idx}{ext}", f"x{root}{pre}scores_metadata_{idx}{ext}",
+                     f"{root}{pre}scores_metadata_{idx}", f"{root}{pre}scores_metadata_{idx}.tmp{ext}",
+                     f"{root}{pre}scores_metadata_{ext}", f"{root}{pre}scores_metadata_{idx}{ext.upper()}"]
+            chunk_to(Path(out) / names[var % len(names)])
+        elif kind == "near-level":
+            lv = rng.choice(lvn)
+            names = [f"{root}{lv}{ext}.bak", f"{root}{lv}", f"{root}{lv.upper()}{ext}", f"{root}{lv}s{ext}", f"x{root}{lv}{ext}",
+                     f"{root}{lv}.old{ext}", f"{root}{pre}{lv}{ext}" if pre else f"{root}{lv}{ext}~"]
+            level_to(Path(out) / names[var % len(names)])
+        elif kind == "near-result":
+            lv = rng.choice(lvn)
+            names = [f"{root}{pre}targets.{lv}.old", f"{root}{pre}targets.{lv}~", f"x{root}{pre}targets.{lv}", f"{root}{pre}target.{lv}",
+                     f"{root}{pre}targets.{lv}.tmp", f"{root}{pre}TARGETS.{lv}", f"{root}{pre}decoys.{lv}.bak", f"{root}{pre}targets.{lv}{ext}"]
+            result_to(Path(out) / names[var % len(names)])
+        elif kind == "other-root":
+            oroot = ["zz.", "" if root else "q.", root + root if root else "r.r."][var % 3]
+            lv = rng.choice(lvn)
+            which = (var // 3) % 3
+            if which == 0:
+                chunk_to(Path(out) / f"{oroot}{pre}scores_metadata_{idx}{ext}")
+            elif which == 1:
+                level_to(Path(out) / f"{oroot}{lv}{ext}")
+            else:
+                result_to(Path(out) / f"{oroot}{pre}targets.{lv}")
+        elif kind == "other-ext":
+            others = [e for e in TEXT_EXTS + (".parquet", ".txt") if e != ext]
+            oext = others[var % len(others)]
+            if (var // 7) % 2:
+                chunk_to(Path(out) / f"{root}{pre}scores_metadata_{idx}{oext}")
+            else:
+                level_to(Path(out) / f"{root}{rng.choice(lvn)}{oext}")
+        elif kind == "empty-own":
+            names = sorted(_own_intermediates(obs)) + (sorted(_own_results(obs)) if not obs.get("append") else []) + sorted(obs.get("models", []))
+            (Path(out) / names[var % len(names)]).write_bytes(b"")
+        elif kind == "subdir":
+            sub = Path(out) / ("old_run%d" % (var % 2))
+            sub.mkdir(exist_ok=True)
+            chunk_to(sub / f"{root}{pre}scores_metadata_{idx}{ext}")
+            result_to(sub / f"{root}{pre}targets.psms")
+            level_to(sub / f"{root}psms{ext}")
+        elif kind == "prot-names":
+            names = [f"{root}proteins{ext}", f"{root}{pre}targets.proteins", f"{root}{pre}decoys.proteins"]
+            p = Path(out) / names[var % 3]
+            (level_to(p) if var % 3 == 0 else result_to(p))
+        elif kind == "own-model":
+            ms = sorted(obs.get("models", [])) or ["mokapot.model_fold-1.pkl"]
+            (Path(out) / ms[idx % len(ms)]).write_bytes(b"\x80\x04not a model of this run" + bytes([var]))
+        elif kind == "near-model":
+            names = [f"{root}mokapot.model_fold-9.pkl", f"{root}mokapot.model_fold-1.pkl.bak", f"x{root}mokapot.model_fold-1.pkl",
+                     "mokapot.model_fold-1.pkl" if root else "zz.mokapot.model_fold-1.pkl", f"{root}mokapot.model_fold-0.pkl"]
+            (Path(out) / names[var % len(names)]).write_bytes(b"\x80\x04a model of another run" + bytes([var]))
+        elif kind == "append-base":
+            # append_to_output_file: the caller has created the result files (header, possibly rows of earlier collections)
+            for k, fn in enumerate(sorted(_own_results(obs))):
+                _result_frame(df, obs, n=(k + var) % (len(df) + 1)).to_csv(Path(out) / fn, sep="\t", index=False)
         else:
-            (Path(out) / ("notes%d.txt" % j["index"])).write_text("unrelated\n")
+            (Path(out) / ("notes%d.txt" % idx)).write_text("unrelated\n")
 
 
 # ============================================================================ case kinds
@@ -719,13 +1268,45 @@ def _tmp():
 def _own_results(obs):
     """names of the result files of the run"""
     names = set()
+    root = _root(obs)
     for p in obs["prefixes"]:
         pre = (p + ".") if p else ""
         for lv in _level_names(obs):
-            names.add(f"{pre}targets.{lv}")
+            names.add(f"{root}{pre}targets.{lv}")
             if obs["decoys"]:
-                names.add(f"{pre}decoys.{lv}")
+                names.add(f"{root}{pre}decoys.{lv}")
     return names
+
+
+def _own_intermediates(obs):
+    root = _root(obs)
+    names = set(root + lv + _ext(obs) for lv in _level_names(obs))
+    for j, f in enumerate(obs["files"]):
+        pre = (obs["prefixes"][j] + ".") if obs["prefixes"][j] else ""
+        n = len(f["targets"])
+        for i in range((n + obs["chunk"] - 1) // obs["chunk"]):
+            names.add(f"{root}{pre}scores_metadata_{i}{_ext(obs, j)}")
+    return names
+
+
+def _tree(out):
+    """every file below the directory: relative path -> sha256"""
+    import hashlib
+    res = {}
+    for dp, dn, fns in os.walk(out):
+        for fn in fns:
+            p = Path(dp) / fn
+            try:
+                res[str(p.relative_to(out))] = hashlib.sha256(p.read_bytes()).hexdigest()
+            except OSError:
+                res[str(p.relative_to(out))] = "unreadable"
+    return res
+
+
+def _changed_bystanders(before, after, own):
+    """files that were there before the run, are none of the run's own (result / chunk / level) names and are missing or have
+    other bytes afterwards"""
+    return sorted(k for k, h in before.items() if k not in own and after.get(k) != h)
 
 
 def _results_bytes(out, obs):
@@ -734,6 +1315,20 @@ def _results_bytes(out, obs):
         p = Path(out) / fn
         res[fn] = p.read_bytes().decode("latin1") if p.exists() else None
     return res
+
+
+def _property_only(obs):
+    """runs the Coq model does not cover: checked with the property itself (dirty directory vs clean directory, nothing left)"""
+    if obs.get("sqlite") or obs.get("exts"):
+        return True
+    if obs.get("fasta") and (len(obs["files"]) > 1 or not obs["decoys"]):
+        return True
+    return False
+
+
+def _glob_hit(fn, obs):
+    root = _root(obs)
+    return any(fn.startswith(f"{root}{(p + '.') if p else ''}scores_metadata_") for p in obs["prefixes"])
 
 
 def _run_dirty(c):
@@ -747,48 +1342,69 @@ def _run_dirty(c):
         out = Path(d) / "out"
         out.mkdir()
         ends = []
+        junk = [j for j in c["junk"] if j["kind"] != "append-base"]
+        base = [j for j in c["junk"] if j["kind"] == "append-base"]
         for i, r in enumerate(c["runs"]):
             ind = Path(d) / ("in_r%d" % i)
             ind.mkdir()
-            ends.append(_exec_run(r, ind, out, _tap_for(r, out)))
+            ends.append(_exec_run(r, ind, out, _tap_for(r, out), tag="inr%d_" % i))
             if i == 0:
-                _write_junk(c["junk"], out, obs, reg)
+                _write_junk(junk, out, obs, reg)
         if not c["runs"]:
-            _write_junk(c["junk"], out, obs, reg)
+            _write_junk(junk, out, obs, reg)
+        _write_junk(base, out, obs, reg)
+        if obs.get("in_dest"):
+            for i, f in enumerate(obs["files"]):
+                _write_input(f, out, "inobs%d" % i, _ext(obs, i))
+        own = _own_results(obs) | _own_intermediates(obs)
         before = _snapshot(out, obs)
+        before_tree = _tree(out)
+        base_bytes = _results_bytes(out, obs)
+        overlap = any(fn in own or _glob_hit(fn, obs) for fn in before)
+        tags = c.setdefault("tags", [])
+        for t in ("overlap", "no-overlap"):
+            if t in tags:
+                tags.remove(t)
+        tags.append("overlap" if overlap else "no-overlap")
         ind = Path(d) / "in_obs"
         ind.mkdir()
         tap = IoTap(out)
-        end = _exec_run(obs, ind, out, tap)
+        info = {}
+        end = _exec_run(obs, ind, out, tap, tag="inobs", info=info)
         after = _snapshot(out, obs)
+        after_tree = _tree(out)
         dirty_bytes = _results_bytes(out, obs)
         # the same run in a clean directory
         out2 = Path(d) / "clean"
         out2.mkdir()
         ind2 = Path(d) / "in_clean"
         ind2.mkdir()
-        end2 = _exec_run(obs, ind2, out2, IoTap(out2))
+        info2 = {}
+        end2 = _exec_run(obs, ind2, out2, IoTap(out2), tag="inobs", info=info2)
         clean_bytes = _results_bytes(out2, obs)
         clean_listing = sorted(os.listdir(out2))
+        impl = {"end": end, "earlier_ends": ends, "before": sorted(before.keys()),
+                "dirty_bytes": dirty_bytes, "clean_bytes": clean_bytes, "base_bytes": base_bytes, "clean_end": end2,
+                "clean_listing": clean_listing, "after_files": sorted(after.keys()),
+                "bystanders_changed": _changed_bystanders(before_tree, after_tree, own),
+                "inputs_changed": info.get("inputs_changed", []), "db": info.get("db"), "clean_db": info2.get("db")}
         # model
         other_ids = {}
-        prot_tables = _prot_tables(obs, reg, out2) if obs.get("fasta") and end2 == "complete" else None
-        if obs.get("fasta") and prot_tables is None:
-            # the protein step itself refused the table (sanity checks of picked_protein): nothing to model
-            return (("ok", {"end": "not-modelled"}),
-                    ("ok", {"end": end, "clean_end": end2, "dirty_bytes": dirty_bytes, "clean_bytes": clean_bytes,
-                            "before": sorted(before.keys()), "after_files": sorted(after.keys())}))
+        prot_tables = None
+        if not _property_only(obs):
+            prot_tables = _prot_tables(obs, reg, out2) if obs.get("fasta") and end2 == "complete" else None
+        if _property_only(obs) or (obs.get("fasta") and prot_tables is None):
+            # outside the model (or the protein step itself refused the table — sanity checks of picked_protein): nothing to model
+            return ("ok", {"end": "not-modelled"}), ("ok", impl)
         # re-snapshot with the protein names known to the registry
         line = lib.run_driver(["c09.run %s 0 %s" % (_cfg_tok(obs, reg, prot_tables=prot_tables), _fs_tok(before, obs, reg, other_ids))])[0]
         mfs = _decode_fs(line, other_ids, reg)
-        impl = {"end": end, "earlier_ends": ends, "before": sorted(before.keys()),
-                "listing": sorted([list(sn) for sn, _ in after.values()]),
-                "results": {fn: _canon_rows(sn, rows) for fn, (sn, rows) in after.items() if sn[0] == "result"},
-                "kept": {fn: _canon_rows(sn, rows) for fn, (sn, rows) in after.items() if sn[0] != "result" and fn in before},
-                "kept_before": {fn: _canon_rows(sn, rows) for fn, (sn, rows) in before.items() if sn[0] != "result"},
-                "trace": _trace_struct(tap.trace, obs) if obs.get("workers", 1) == 1 else None,
-                "dirty_bytes": dirty_bytes, "clean_bytes": clean_bytes, "clean_end": end2, "clean_listing": clean_listing,
-                "after_files": sorted(after.keys())}
+        impl.update({
+            "listing": sorted([list(sn) for sn, _ in after.values()]),
+            "results": {fn: _canon_rows(sn, rows) for fn, (sn, rows) in after.items() if sn[0] == "result"},
+            "kept": {fn: _canon_rows(sn, rows) for fn, (sn, rows) in after.items() if sn[0] != "result" and fn in before},
+            "kept_before": {fn: _canon_rows(sn, rows) for fn, (sn, rows) in before.items() if sn[0] != "result"},
+            "trace": _trace_struct(tap.trace, obs) if obs.get("workers", 1) == 1 else None})
         if mfs is None:
             model = {"end": "error"}
         else:
@@ -851,66 +1467,411 @@ class _StopAfterVerify(Exception):
     pass
 
 
-def _run_verify(c):
+def _main_until_read_pin(argv, cwd=None):
+    """mokapot.mokapot.main with read_pin replaced by a stub that raises: the command line's verify step alone"""
+    import logging
     import mokapot.mokapot as mm
+    old = mm.read_pin
+    cwd0 = os.getcwd()
+
+    def stop(*a, **k):
+        raise _StopAfterVerify()
+    mm.read_pin = stop
+    try:
+        if cwd is not None:
+            os.chdir(cwd)
+        try:
+            mm.main(argv)
+            return "returned"
+        except _StopAfterVerify:
+            return "verified"
+        except BaseException as e:  # noqa
+            if isinstance(e, (KeyboardInterrupt, MemoryError)):
+                raise
+            return "raised " + type(e).__name__
+    finally:
+        os.chdir(cwd0)
+        mm.read_pin = old
+        logging.disable(logging.CRITICAL)
+
+
+def _verify_pins(c):
+    if "pins" in c:
+        return c["pins"]
+    return [{"name": "x.pin", "pin": c["pin"], "leftover": c["leftover"]}]
+
+
+def _run_verify(c):
+    pins = _verify_pins(c)
     d = _tmp()
     try:
-        pin = Path(d) / "x.pin"
-        pin.write_text(c["pin"])
-        tmp = Path(str(pin) + ".tsv")
-        if c["leftover"] is not None:
-            tmp.write_text(c["leftover"])
-        old = mm.read_pin
+        res = {}
+        for which in ("dirty", "clean"):
+            pd_ = Path(d) / ("pins_" + which)
+            pd_.mkdir()
+            for p in pins:
+                (pd_ / p["name"]).write_text(p["pin"])
+                _age(pd_ / p["name"])
+                if which == "dirty" and p["leftover"] is not None:
+                    (pd_ / (p["name"] + ".tsv")).write_text(p["leftover"])
+            if c.get("rel"):
+                argv = [p["name"] for p in pins] + ["--dest_dir", str(Path(d) / ("out_" + which)), "--verbosity", "0"]
+                end = _main_until_read_pin(argv, cwd=pd_)
+            else:
+                argv = [str(pd_ / p["name"]) for p in pins] + ["--dest_dir", str(Path(d) / ("out_" + which)), "--verbosity", "0"]
+                end = _main_until_read_pin(argv)
+            res[which] = (end, pd_)
+        end, pd_ = res["dirty"]
+        impl = {"end": end, "clean_end": res["clean"][0], "pins": [], "extra_files": sorted(
+            fn for fn in os.listdir(pd_) if fn not in [p["name"] for p in pins] + [p["name"] + ".tsv" for p in pins])}
+        for p in pins:
+            a, t = pd_ / p["name"], pd_ / (p["name"] + ".tsv")
+            a2 = res["clean"][1] / p["name"]
+            impl["pins"].append({"pin": a.read_text() if a.exists() else None, "tmp": t.read_text() if t.exists() else None,
+                                 "pin_clean": a2.read_text() if a2.exists() else None})
+        # model: pin by pin, in the order of the command line; a conversion that raises stops the run
+        lines = []
+        for p in pins:
+            ents = ["3 %s %s" % (lib.z(1), lib.s(p["pin"]))]
+            if p["leftover"] is not None:
+                ents.append("4 %s %s" % (lib.z(1), lib.s(p["leftover"])))
+            lines.append("c09.verify 0 %s %d %s" % (lib.z(1), len(ents), " ".join(ents)))
+        model = {"end": "verified", "pins": []}
+        for p, line in zip(pins, lib.run_driver(lines)):
+            t = Toks(line)
 
-        def stop(*a, **k):
-            raise _StopAfterVerify()
-        mm.read_pin = stop
-        import logging
-        try:
-            try:
-                mm.main([str(pin), "--dest_dir", str(Path(d) / "out"), "--verbosity", "0"])
-                end = "returned"
-            except _StopAfterVerify:
-                end = "verified"
-            except BaseException as e:  # noqa
-                if isinstance(e, (KeyboardInterrupt, MemoryError)):
-                    raise
-                end = "raised " + type(e).__name__
-        finally:
-            mm.read_pin = old
-            logging.disable(logging.CRITICAL)
-        impl = {"end": end, "pin": pin.read_text() if pin.exists() else None, "tmp": tmp.read_text() if tmp.exists() else None}
-        # the same with no leftover (the property itself)
-        pin2 = Path(d) / "y.pin"
-        pin2.write_text(c["pin"])
-        mm.read_pin = stop
-        try:
-            try:
-                mm.main([str(pin2), "--dest_dir", str(Path(d) / "out2"), "--verbosity", "0"])
-            except BaseException as e:  # noqa
-                if isinstance(e, (KeyboardInterrupt, MemoryError)):
-                    raise
-        finally:
-            mm.read_pin = old
-            logging.disable(logging.CRITICAL)
-        impl["pin_clean"] = pin2.read_text() if pin2.exists() else None
-        ents = ["3 %s %s" % (lib.z(1), lib.s(c["pin"]))]
-        if c["leftover"] is not None:
-            ents.append("4 %s %s" % (lib.z(1), lib.s(c["leftover"])))
-        line = lib.run_driver(["c09.verify 0 %s %d %s" % (lib.z(1), len(ents), " ".join(ents))])[0]
-        t = Toks(line)
-
-        def ent():
-            tag = t.int()
-            p = t.z()
-            return tag, t.s()
-        r = t.opt(lambda: t.lst(ent))
-        if r is None:
-            model = {"end": "raised", "pin": None, "tmp": None}
-        else:
-            dm = {tag: txt for tag, txt in r}
-            model = {"end": "verified", "pin": dm.get(3), "tmp": dm.get(4)}
+            def ent():
+                tag = t.int()
+                t.z()
+                return tag, t.s()
+            r = t.opt(lambda: t.lst(ent))
+            if model["end"] == "raised" or r is None:
+                model["end"] = "raised"
+                model["pins"].append({"pin": p["pin"], "tmp": p["leftover"]})
+            else:
+                dm = {tag: txt for tag, txt in r}
+                model["pins"].append({"pin": dm.get(3), "tmp": dm.get(4)})
         return ("ok", model), ("ok", impl)
+    finally:
+        shutil.rmtree(d, ignore_errors=True)
+
+
+# ---- the whole command line
+def _cli_pobs(run):
+    """the run seen as a specification of assign_confidence: what decides the NAMES of the files the command line creates"""
+    stems = [p["stem"] for p in run["pins"]]
+    prefixes = [None] * len(stems) if (run["aggregate"] or len(stems) == 1) else stems
+    root = (run["file_root"] + ".") if run["file_root"] is not None else ""
+    return {"levels": [], "rollup": not run["skip_rollup"], "prefixes": prefixes, "root": root, "fmt": "tsv", "ext": ".pin",
+            "decoys": run["keep_decoys"], "chunk": run["chunk"],
+            "files": [{"targets": [0] * (len(p["text"].splitlines()) - 1)} for p in run["pins"]],
+            "models": [root + "mokapot.model_fold-%d.pkl" % (i + 1) for i in range(run["folds"])] if run["save_models"] else []}
+
+
+def _cli_prepare(run, indir, dest, leftovers):
+    where = Path(dest) if run["in_dest"] else Path(indir)
+    where.mkdir(exist_ok=True)
+    paths = []
+    for p in run["pins"]:
+        q = where / (p["stem"] + ".pin")
+        q.write_text(p["text"])
+        _age(q)
+        if leftovers and p["leftover"] is not None:
+            Path(str(q) + ".tsv").write_text(p["leftover"])
+        paths.append(q)
+    return paths
+
+
+def _cli_exec(run, paths, dest, tap):
+    import logging
+    import mokapot.mokapot as mm
+    import mokapot.confidence as conf
+    old = conf.peps_from_scores
+    conf.peps_from_scores = _const_peps
+    cwd0 = os.getcwd()
+    dest = Path(dest)
+    try:
+        argv = []
+        cwd = None
+        if run["dest"] == "default":
+            dest.mkdir(exist_ok=True)
+            cwd = dest
+        elif run["dest"] == "rel":
+            cwd = dest.parent
+            argv += ["--dest_dir", dest.name]
+        else:
+            argv += ["--dest_dir", str(dest)]
+            if run["pins_rel"]:
+                cwd = paths[0].parent
+        if cwd is not None:
+            os.chdir(cwd)
+        pins = [os.path.relpath(p, cwd) if (run["pins_rel"] and cwd is not None) else str(p) for p in paths]
+        argv = pins + argv + ["--train_fdr", "0.5", "--test_fdr", "0.5", "--max_iter", "2", "--folds", str(run["folds"]),
+                              "--seed", str(run["seed"]), "--max_workers", str(run["workers"]), "--verbosity", "0"]
+        if run["file_root"] is not None:
+            argv += ["--file_root", run["file_root"]]
+        for flag in ("aggregate", "keep_decoys", "skip_rollup", "save_models"):
+            if run[flag]:
+                argv.append("--" + flag)
+        with brewlib.Chunking(confidence=run["chunk"]):
+            try:
+                with _Tapped(tap):
+                    mm.main(argv)
+                return "complete"
+            except KillSim:
+                return "killed"
+            except Injected:
+                return "failed"
+            except BaseException as e:   # noqa
+                if isinstance(e, (KeyboardInterrupt, MemoryError)):
+                    raise
+                return "raised " + type(e).__name__ + ": " + str(e)[:120]
+    finally:
+        os.chdir(cwd0)
+        conf.peps_from_scores = old
+        logging.disable(logging.CRITICAL)
+
+
+def _canon_obj(o, depth=0):
+    """a pickled model as plain data, without the wall-clock timings scikit-learn's GridSearchCV records (cv_results_
+    mean_fit_time ..., refit_time_) — the only part of a saved model that differs between two identical runs"""
+    import numpy as np
+    if depth > 12:
+        return repr(type(o))
+    if isinstance(o, np.random.Generator):
+        return ["rng", _canon_obj(o.bit_generator.state, depth + 1)]
+    if isinstance(o, np.ndarray):
+        return ["nd", str(o.dtype), o.shape, [_canon_obj(x, depth + 1) for x in o.ravel().tolist()]]
+    if isinstance(o, np.generic):
+        return o.item() if not isinstance(o.item(), float) else repr(o.item())
+    if isinstance(o, float):
+        return repr(o)
+    if isinstance(o, (str, int, bool, bytes)) or o is None:
+        return o
+    if isinstance(o, dict):
+        return {str(k): _canon_obj(v, depth + 1) for k, v in sorted(o.items(), key=lambda kv: str(kv[0]))
+                if not (isinstance(k, str) and k.endswith("_time")) and k != "refit_time_"}
+    if isinstance(o, (list, tuple)):
+        return [_canon_obj(x, depth + 1) for x in o]
+    if hasattr(o, "__dict__"):
+        return [type(o).__name__, _canon_obj(vars(o), depth + 1)]
+    return repr(o)
+
+
+def _cli_files(dest, names):
+    import pickle
+    res = {}
+    for fn in sorted(names):
+        p = Path(dest) / fn
+        if not p.is_file():
+            res[fn] = None
+        elif fn.endswith(".pkl"):
+            raw = p.read_bytes()
+            try:
+                res[fn] = lib.jsonable(["model", _canon_obj(pickle.loads(raw))])
+            except Exception:           # noqa: not a model
+                res[fn] = raw.decode("latin1")
+        else:
+            res[fn] = p.read_bytes().decode("latin1")
+    return res
+
+
+def _run_cli(c):
+    obs = c["observed"]
+    pobs = _cli_pobs(obs)
+    d = _tmp()
+    try:
+        dest = Path(d) / "out"
+        dest.mkdir()
+        ends = []
+        for i, r in enumerate(c["runs"]):
+            paths = _cli_prepare(r, Path(d) / ("in_r%d" % i), dest, True)
+            ends.append(_cli_exec(r, paths, dest, _tap_for(r, dest))[:40])
+            if i == 0:
+                _write_junk(c["junk"], dest, pobs, Registry())
+        if not c["runs"]:
+            _write_junk(c["junk"], dest, pobs, Registry())
+        paths = _cli_prepare(obs, Path(d) / "in_obs", dest, True)
+        pin_names = [p.name for p in paths] + [p.name + ".tsv" for p in paths]
+        results = _own_results(pobs) | set(pobs["models"])
+        own = results | _own_intermediates(pobs) | (set(pin_names) if obs["in_dest"] else set())
+        before_tree = _tree(dest)
+        before = sorted(os.listdir(dest))
+        overlap = any(fn in own or _glob_hit(fn, pobs) for fn in before) or any(p["leftover"] is not None for p in obs["pins"])
+        tags = c.setdefault("tags", [])
+        for t in ("overlap", "no-overlap"):
+            if t in tags:
+                tags.remove(t)
+        tags.append("overlap" if overlap else "no-overlap")
+        end = _cli_exec(obs, paths, dest, IoTap(dest))
+        after = sorted(os.listdir(dest))
+        after_tree = _tree(dest)
+        # the same command in a clean directory (which the command has to create itself unless the PINs live in it)
+        dest2 = Path(d) / "clean"
+        if obs["in_dest"]:
+            dest2.mkdir()
+        paths2 = _cli_prepare(obs, Path(d) / "in_clean", dest2, False)
+        end2 = _cli_exec(obs, paths2, dest2, IoTap(dest2))
+        clean = sorted(os.listdir(dest2)) if dest2.is_dir() else None
+        impl = {"end": end, "clean_end": end2, "earlier_ends": ends, "before": before, "after_files": after, "clean_listing": clean,
+                "expected_clean_listing": sorted(results | (set(p.name for p in paths) if obs["in_dest"] else set())),
+                "dirty_bytes": _cli_files(dest, results), "clean_bytes": _cli_files(dest2, results),
+                "pins": [p.read_text() if p.exists() else None for p in paths],
+                "pins_clean": [p.read_text() if p.exists() else None for p in paths2],
+                "tsv_left": [p.name + ".tsv" for p, q in zip(paths, obs["pins"]) if Path(str(p) + ".tsv").exists() and q["ragged"]],
+                "bystanders_changed": _changed_bystanders(before_tree, after_tree, own),
+                "intermediates_left": sorted(fn for fn in after if fn in _own_intermediates(pobs)),
+                "extra": sorted(fn for fn in after if fn not in before and fn not in results)}
+        return ("ok", {"end": "not-modelled"}), ("ok", impl)
+    finally:
+        shutil.rmtree(d, ignore_errors=True)
+
+
+# ---- the stand-alone rollup tool (mokapot.brew_rollup): temp.<level>s files, result files of an earlier rollup
+RU_LEVEL = {"ModifiedPeptide": "modified_peptide", "Precursor": "precursor", "PeptideGroup": "peptide_group"}
+
+
+def _gen_rollup_src(rng, run_idx):
+    levels = [l for l in LEVEL_COLS if rng.random() < 0.4]
+    ncoll = rng.choice([1, 2, 2])
+    files, scores = [], []
+    for j in range(ncoll):
+        n = rng.randint(6, 24)
+        files.append(brewlib.gen_file(rng, n, 2, file_idx=run_idx * 10 + j, mult=(1, 2), levels=levels, npep=max(2, n // 3)))
+        scores.append([float(v) for v in rng.sample(range(-n, 3 * n), n)])
+    return {"files": files, "scores": scores, "levels": levels, "prefixes": rng.sample(["a", "b", "coll0"], ncoll),
+            "root": rng.choice(["rollup", "ro", "ro", "r.x"]), "end": "complete"}
+
+
+def _gen_rollup(rng, k):
+    obs = _gen_rollup_src(rng, 8)
+    obs["dest_is_src"] = rng.random() < 0.3
+    runs = []
+    if not obs["dest_is_src"]:
+        for r in range(rng.choice([0, 1, 1, 2])):
+            e = _gen_rollup_src(rng, r)
+            if rng.random() < 0.7:
+                e["root"] = obs["root"]
+            mode = rng.choice(["kill", "fail", "complete"])
+            e["end"] = mode if mode == "complete" else [mode, rng.randint(0, 20)]
+            runs.append(e)
+    junk = [{"kind": rng.choice(["temp", "temp", "garbage-temp", "own-output", "near", "other-root", "empty-temp"]),
+             "level": rng.choice(["peptide", "peptide", "precursor", "modified_peptide", "peptide_group"]),
+             "variant": rng.randint(0, 50), "seed": rng.randint(0, 10 ** 6)} for _ in range(rng.choice([1, 2, 3]))]
+    return {"fn": "rollup", "observed": obs, "runs": runs, "junk": junk,
+            "tags": ["rollup", "earlier=%d" % len(runs), "dest=src" if obs["dest_is_src"] else "dest!=src", "root=" + obs["root"]]
+                    + ["end=" + (r["end"] if isinstance(r["end"], str) else r["end"][0]) for r in runs] + sorted(set("junk:" + j["kind"] for j in junk))}
+
+
+def _rollup_make_src(spec, src, indir):
+    """the source directory of a rollup: the result files of a real assign_confidence run"""
+    import numpy as np
+    import mokapot
+    import mokapot.confidence as conf
+    old = conf.peps_from_scores
+    conf.peps_from_scores = _const_peps
+    try:
+        Path(indir).mkdir(exist_ok=True)
+        Path(src).mkdir(exist_ok=True)
+        paths = [_write_input(f, indir, "in%d" % i, ".pin") for i, f in enumerate(spec["files"])]
+        dss = mokapot.read_pin(paths, max_workers=1)
+        mokapot.assign_confidence(dss, max_workers=1, scores=[np.array(s, dtype=float) for s in spec["scores"]], eval_fdr=0.5,
+                                  dest_dir=Path(src), prefixes=list(spec["prefixes"]), decoys=True, do_rollup=True, rng=7)
+        for fn in os.listdir(src):
+            _age(Path(src) / fn)
+    finally:
+        conf.peps_from_scores = old
+
+
+def _rollup_exec(spec, src, dest, tap):
+    import logging
+    import mokapot.brew_rollup as br
+    old = br.peps_from_scores
+    br.peps_from_scores = _const_peps
+    try:
+        try:
+            with _Tapped(tap):
+                br.main(["--level", "psm", "--src_dir", str(src), "--dest_dir", str(dest), "--file_root", spec["root"], "--verbosity", "0"])
+            return "complete"
+        except KillSim:
+            return "killed"
+        except Injected:
+            return "failed"
+        except BaseException as e:   # noqa
+            if isinstance(e, (KeyboardInterrupt, MemoryError)):
+                raise
+            return "raised " + type(e).__name__
+    finally:
+        br.peps_from_scores = old
+        logging.disable(logging.CRITICAL)
+
+
+def _rollup_junk(junk, dest, obs):
+    import random
+    root = obs["root"] + "."
+    for j in junk:
+        rng = random.Random(j["seed"])
+        lv = j["level"] + "s"
+        rows = ["old%d\tK.OLD%dK.A\t%d.0\tprotX\t%s" % (i, rng.randint(0, 3), rng.randint(-50, 150), rng.choice(["True", "False"]))
+                for i in range(rng.randint(1, 5))]
+        table = "psm_id\tpeptide\tscore\tproteinIds\tis_decoy\n" + "\n".join(rows) + "\n"
+        var = j["variant"]
+        if j["kind"] == "temp":
+            (Path(dest) / f"{root}temp.{lv}").write_text(table)
+        elif j["kind"] == "garbage-temp":
+            (Path(dest) / f"{root}temp.{lv}").write_bytes(b"\x00garbage\tnot a table\n\xff\xfe no newline")
+        elif j["kind"] == "empty-temp":
+            (Path(dest) / f"{root}temp.{lv}").write_bytes(b"")
+        elif j["kind"] == "own-output":
+            (Path(dest) / f"{root}{['targets', 'decoys'][var % 2]}.{lv}").write_text(table)
+        elif j["kind"] == "near":
+            names = [f"{root}temp.{lv}.bak", f"{root}temp.{lv[:-1]}", f"x{root}temp.{lv}", f"{root}temp.{lv}~", f"{root}tmp.{lv}",
+                     f"{root}targets.{lv}.old"]
+            (Path(dest) / names[var % len(names)]).write_text(table)
+        else:
+            (Path(dest) / f"zz.{['temp', 'targets', 'decoys'][var % 3]}.{lv}").write_text(table)
+
+
+def _run_rollup(c):
+    obs = c["observed"]
+    d = _tmp()
+    try:
+        src0 = Path(d) / "src0"
+        _rollup_make_src(obs, src0, Path(d) / "in_obs")
+        src_names = set(os.listdir(src0))
+        res = {}
+        for which in ("dirty", "clean"):
+            src = Path(d) / ("src_" + which)
+            shutil.copytree(src0, src)
+            dest = src if obs["dest_is_src"] else Path(d) / ("dest_" + which)
+            dest.mkdir(exist_ok=True)
+            ends = []
+            if which == "dirty":
+                for i, r in enumerate(c["runs"]):
+                    rsrc = Path(d) / ("src_r%d" % i)
+                    _rollup_make_src(r, rsrc, Path(d) / ("in_r%d" % i))
+                    ends.append(_rollup_exec(r, rsrc, dest, _tap_for(r, dest)))
+                _rollup_junk(c["junk"], dest, obs)
+            before = _tree(dest)
+            end = _rollup_exec(obs, src, dest, IoTap(dest))
+            after = _tree(dest)
+            res[which] = {"end": end, "before": before, "after": after, "ends": ends,
+                          "bytes": {fn: (Path(dest) / fn).read_bytes().decode("latin1") for fn in after if fn not in before or before[fn] != after[fn]}}
+        dirty, clean = res["dirty"], res["clean"]
+        own = set(clean["after"]) - src_names
+        tags = c.setdefault("tags", [])
+        for t in ("overlap", "no-overlap"):
+            if t in tags:
+                tags.remove(t)
+        tags.append("overlap" if any(fn in own for fn in dirty["before"]) else "no-overlap")
+        impl = {"end": dirty["end"], "clean_end": clean["end"], "earlier_ends": dirty["ends"], "before": sorted(dirty["before"]),
+                "after_files": sorted(dirty["after"]), "clean_listing": sorted(clean["after"]),
+                "differ": sorted(fn for fn in own if dirty["after"].get(fn) != clean["after"].get(fn)),
+                "extra": sorted(fn for fn in dirty["after"] if fn not in dirty["before"] and fn not in own),
+                "bystanders_changed": _changed_bystanders(dirty["before"], dirty["after"], own),
+                "temp_left": sorted(fn for fn in dirty["after"] if fn in own and ".temp." in fn),
+                "sample": {fn: dirty["bytes"].get(fn, "")[:200] for fn in sorted(own)[:2]}}
+        return ("ok", {"end": "not-modelled"}), ("ok", impl)
     finally:
         shutil.rmtree(d, ignore_errors=True)
 
@@ -1012,6 +1973,10 @@ def run_case(c):
         return _run_crash(c)
     if fn == "verify":
         return _run_verify(c)
+    if fn == "cli":
+        return _run_cli(c)
+    if fn == "rollup":
+        return _run_rollup(c)
     if fn == "strace":
         return _run_strace(c)
     raise ValueError(fn)
@@ -1035,9 +2000,13 @@ def same(c, m, i):
     J = lib.jsonable
     fn = c["fn"]
     if fn == "dirty":
+        # the property itself, on every case
+        if oracle(c, ("ok", i)) is not None:
+            return False
         if m["end"] == "not-modelled":
-            # the run refuses its input in a clean directory too: only the property itself applies
-            return i["end"] == i["clean_end"] and i["dirty_bytes"] == i["clean_bytes"]
+            # outside the model (protein step refusing its table, SQLite output, collections of different formats, ...):
+            # the run must end the same way in the dirty and in the clean directory
+            return i["end"] == i["clean_end"]
         if i["end"] != "complete" or m["end"] != "complete":
             return False
         if J(m["listing"]) != J(i["listing"]):
@@ -1049,20 +2018,47 @@ def same(c, m, i):
         if m["trace"] is not None and J(m["trace"]) != J(i["trace"]):
             return False
         return True
+    if fn == "cli":
+        if oracle(c, ("ok", i)) is not None:
+            return False
+        if i["end"] != i["clean_end"]:
+            return False
+        if i["end"] == "complete" and J(i["clean_listing"]) != J(i["expected_clean_listing"]):
+            return False          # the harness' knowledge of the names the command line creates is wrong
+        return True
+    if fn == "rollup":
+        return oracle(c, ("ok", i)) is None and i["end"] == i["clean_end"]
     if fn == "crash":
         return J(m["trace"]) == J(i["trace"]) and J(m["states"]) == J(i["states"])
     if fn == "verify":
+        if oracle(c, ("ok", i)) is not None:
+            return False
+        pins = _verify_pins(c)
         if m["end"] == "raised":
-            return i["end"].startswith("raised") and i["pin"] == c["pin"]
-        return i["end"] == "verified" and m["pin"] == i["pin"] and m["tmp"] == i["tmp"]
+            if not i["end"].startswith("raised"):
+                return False
+        elif i["end"] != "verified":
+            return False
+        if i["extra_files"]:
+            return False
+        for p, mp, ip in zip(pins, m["pins"], i["pins"]):
+            if mp["pin"] != ip["pin"] or mp["tmp"] != ip["tmp"]:
+                return False
+        return True
     if fn == "strace":
-        if J(m["state"]) != J(i["state"]):
+        ms, is_ = m["state"], i["state"]
+        if c.get("exit_at") is not None and ms is not None and len(ms) == len(is_):
+            # a Parquet level file is written through a writer that stays open: after a hard kill it has no footer and
+            # cannot be read (rows are buffered in the process) — only its existence is compared
+            ms = [[n, None] if (n[0] == "level" and n[-1] is True and r2 is None and n == n2) else [n, r]
+                  for (n, r), (n2, r2) in zip(ms, is_)]
+        if J(ms) != J(is_):
             return False
         if c.get("exit_at") is None:
             if i.get("tap_trace") is None or J(m["trace"]) != J(i["tap_trace"]):
                 return False
             if i.get("strace"):
-                pq = c["observed"]["fmt"] == "parquet"
+                pq = _ext(c["observed"]) == ".parquet"
                 want = _sys_visible(m["trace"], pq)
                 got = [e for e in i["sys_trace"]]
                 if pq:
@@ -1080,10 +2076,15 @@ def same(c, m, i):
 
 
 def nontrivial(c):
-    if c["fn"] == "dirty":
+    tags = c.get("tags", [])
+    if c["fn"] in ("dirty", "cli", "rollup"):
+        # decided when the case is run: the directory found by the observed run holds a file under one of the names the run
+        # writes, removes or could glob
+        if "overlap" in tags or "no-overlap" in tags:
+            return "overlap" in tags
         return bool(c["runs"]) or any(j["kind"] != "other" for j in c["junk"])
     if c["fn"] == "verify":
-        return c["leftover"] is not None
+        return any(p["leftover"] is not None for p in _verify_pins(c))
     return True
 
 
@@ -1093,58 +2094,124 @@ def oracle(c, i):
         return None          # a crash of the harness is not a failing input
     r = i[1]
     if c["fn"] == "dirty":
+        obs = c["observed"]
         if r["clean_end"] == "complete" and r["end"] != "complete":
             return f"the run succeeds in a clean directory but ends '{r['end']}' in the dirty one (leftovers: {r['before']})"
         if r["end"] != "complete":
             return None
-        if r["dirty_bytes"] != r["clean_bytes"]:
-            bad = sorted(k for k in set(r["dirty_bytes"]) | set(r["clean_bytes"]) if r["dirty_bytes"].get(k) != r["clean_bytes"].get(k))
+        if r["clean_end"] != "complete":
+            return f"the run ends '{r['clean_end']}' in a clean directory but succeeds in the dirty one (leftovers: {r['before']})"
+        if obs.get("append"):
+            # append_to_output_file: the result files the caller prepared are an input; the run adds to them exactly what it
+            # writes (without header) in a clean directory
+            want = {k: (r["base_bytes"].get(k) or "") + (v or "") for k, v in r["clean_bytes"].items()}
+        elif obs.get("sqlite"):
+            want = {k: None for k in r["clean_bytes"]}
+            if r["clean_bytes"] != want:
+                return f"result files remain although the results went to the database: {[k for k, v in r['clean_bytes'].items() if v is not None]}"
+            if r.get("db") != r.get("clean_db"):
+                return (f"the database filled by the run in the dirty directory differs from the one filled by the same run in a "
+                        f"clean directory (leftovers before the run: {r['before']})")
+        else:
+            want = r["clean_bytes"]
+        if r["dirty_bytes"] != want:
+            bad = sorted(k for k in set(r["dirty_bytes"]) | set(want) if r["dirty_bytes"].get(k) != want.get(k))
             return (f"result files {bad} of the run in the dirty directory differ from those of the same run in a clean "
                     f"directory (leftovers before the run: {r['before']})")
-        obs = c["observed"]
-        extra = [f for f in r["after_files"] if f not in r["before"] and struct_name(f, obs)[0] != "result"]
+        extra = [f for f in r["after_files"] if f not in r["before"] and f not in _own_results(obs)]
         if extra:
             return f"intermediate files remain after a successful run: {extra}"
-        mine = [f for f in r["after_files"] if struct_name(f, obs)[0] in ("chunk", "level")
-                and f in _own_intermediates(obs)]
+        mine = [f for f in r["after_files"] if f in _own_intermediates(obs)]
         if mine:
             return f"intermediate files of this run remain after it succeeded: {mine}"
+        if r.get("bystanders_changed"):
+            return f"files that are none of the run's own were changed or removed: {r['bystanders_changed']}"
+        if r.get("inputs_changed"):
+            return f"the input files were changed or removed: {r['inputs_changed']}"
+        return None
+    if c["fn"] == "cli":
+        if r["clean_end"] == "complete" and r["end"] != "complete":
+            return f"the command succeeds in a clean directory but ends '{r['end']}' in the dirty one (leftovers: {r['before']})"
+        if r["end"] != "complete":
+            return None
+        if r["clean_end"] != "complete":
+            return f"the command ends '{r['clean_end']}' in a clean directory but succeeds in the dirty one (leftovers: {r['before']})"
+        if r["dirty_bytes"] != r["clean_bytes"]:
+            bad = sorted(k for k in r["clean_bytes"] if r["dirty_bytes"].get(k) != r["clean_bytes"].get(k))
+            return (f"result files {bad} of the command in the dirty directory differ from those of the same command in a clean "
+                    f"directory (leftovers before the run: {r['before']})")
+        if r["pins"] != r["pins_clean"]:
+            return "the user's PIN files after the run differ depending on leftovers"
+        if r["intermediates_left"] or r["extra"] or r["tsv_left"]:
+            return f"intermediate files remain after a successful run: {r['intermediates_left'] + r['extra'] + r['tsv_left']}"
+        if r["bystanders_changed"]:
+            return f"files that are none of the run's own were changed or removed: {r['bystanders_changed']}"
+        return None
+    if c["fn"] == "rollup":
+        msg = _rollup_independent(r)
+        if msg:
+            return msg
+        if r["end"] == "complete" and r["temp_left"]:
+            return f"intermediate files remain after a successful rollup: {r['temp_left']}"
         return None
     if c["fn"] == "verify":
-        if r["pin"] != r["pin_clean"]:
-            return ("the user's PIN after the verify step differs depending on a pre-existing <pin>.tsv: "
-                    f"{r['pin'][:80]!r} vs {r['pin_clean'][:80]!r}")
+        for p, ip in zip(_verify_pins(c), r["pins"]):
+            if ip["pin"] != ip["pin_clean"]:
+                return (f"the user's PIN {p['name']} after the verify step differs depending on a pre-existing <pin>.tsv: "
+                        f"{str(ip['pin'])[:80]!r} vs {str(ip['pin_clean'])[:80]!r}")
         return None
     return None
 
 
-def _own_intermediates(obs):
-    ext = _ext(obs)
-    names = set(lv + ext for lv in _level_names(obs))
-    for j, f in enumerate(obs["files"]):
-        pre = (obs["prefixes"][j] + ".") if obs["prefixes"][j] else ""
-        n = len(f["targets"])
-        for i in range((n + obs["chunk"] - 1) // obs["chunk"]):
-            names.add(f"{pre}scores_metadata_{i}{ext}")
-    return names
-
-
 def shrink(c):
-    if c["fn"] != "dirty":
+    if c["fn"] not in ("dirty", "cli"):
         return
     if c["junk"]:
         for i in range(len(c["junk"])):
-            yield dict(c, junk=c["junk"][:i] + c["junk"][i + 1:])
+            if c["junk"][i]["kind"] != "append-base":
+                yield dict(c, junk=c["junk"][:i] + c["junk"][i + 1:])
     if c["runs"]:
         for i in range(len(c["runs"])):
             yield dict(c, runs=c["runs"][:i] + c["runs"][i + 1:])
     obs = c["observed"]
-    if len(obs["files"]) > 1:
+    if c["fn"] == "dirty" and len(obs["files"]) > 1:
         for i in range(len(obs["files"])):
-            o = dict(obs, files=obs["files"][:i] + obs["files"][i + 1:], scores=obs["scores"][:i] + obs["scores"][i + 1:],
-                     prefixes=obs["prefixes"][:i] + obs["prefixes"][i + 1:])
+            o = dict(obs)
+            for key in ("files", "scores", "prefixes", "descs", "exts"):
+                if obs.get(key) is not None:
+                    o[key] = obs[key][:i] + obs[key][i + 1:]
+            if o.get("exts") and ".parquet" not in o["exts"]:
+                o.pop("exts")
             yield dict(c, observed=o)
+    if c["fn"] == "dirty":
+        for key, plain in (("root", ""), ("cwd", "abs"), ("in_dest", False)):
+            if obs.get(key) not in (None, plain):
+                yield dict(c, observed=dict(obs, **{key: plain}))
+
+
+def _rollup_independent(r):
+    """the first half of the property for the rollup tool: its files do not depend on what the destination held before"""
+    if r["clean_end"] == "complete" and r["end"] != "complete":
+        return f"the rollup succeeds in a clean directory but ends '{r['end']}' in the dirty one (leftovers: {r['before']})"
+    if r["end"] != "complete":
+        return None
+    if r["clean_end"] != "complete":
+        return f"the rollup ends '{r['clean_end']}' in a clean directory but succeeds in the dirty one (leftovers: {r['before']})"
+    if r["differ"]:
+        return (f"files {r['differ']} written by the rollup in the dirty directory differ from those of the same rollup in a clean "
+                f"directory (leftovers before the run: {r['before']})")
+    if r["extra"]:
+        return f"files appear only when the rollup runs in the dirty directory: {r['extra']}"
+    if r["bystanders_changed"]:
+        return f"files that are none of the rollup's own were changed or removed: {r['bystanders_changed']}"
+    return None
 
 
 def finding_key(c, m, i):
+    """known findings: exactly the input class 'a successful brew_rollup run' whose only deviation from the property is that
+    its temp.<level>s files are still there"""
+    if c.get("fn") == "rollup" and i is not None and i[0] == "ok":
+        r = i[1]
+        if r["end"] == "complete" and r["clean_end"] == "complete" and r["temp_left"] and _rollup_independent(r) is None:
+            return "brew_rollup:temp-files-remain"
     return None
